@@ -1,4 +1,5 @@
 (** Proofs about the iavl/v2 model (V2.v): properties C19 and C20. *)
+From Coq Require Import Permutation.
 From IAVL Require Import Bytes Varint Tree VMap TreeFacts MTree MTreeFacts HashFacts Iter IterFacts V2.
 Local Open Scope Z_scope.
 
@@ -556,3 +557,2195 @@ Section HashV2.
       rewrite (eff_ver_new wv m E), eff_ver_old by exact Hwv. auto 8.
   Qed.
 End HashV2.
+
+(** ** Item 2: histories.  The v2 Tree against the v1 MutableTree (MTree.step), operation by
+    operation: same outputs (updated flags, removed values, root hashes, versions), related
+    trees. *)
+Definition oveq (wv : Z) (a b : option node) : Prop :=
+  match a, b with
+  | Some x, Some y => veq wv x y
+  | None, None => True
+  | _, _ => False
+  end.
+
+Definition opersisted (a : option node) : Prop :=
+  match a with Some x => all_persisted x | None => True end.
+
+Definition ohok (H : bytes -> bytes) (a : option node) : Prop :=
+  match a with Some x => v2_hok H x | None => True end.
+
+Lemma oveq_refl wv a : oveq wv a a.
+Proof. destruct a; cbn [oveq]; auto using veq_refl. Qed.
+Lemma oveq_sym wv a b : oveq wv a b -> oveq wv b a.
+Proof. destruct a, b; cbn [oveq]; auto using veq_sym. Qed.
+Lemma oveq_trans wv a b c : oveq wv a b -> oveq wv b c -> oveq wv a c.
+Proof. destruct a, b, c; cbn [oveq]; try tauto. apply veq_trans. Qed.
+
+Lemma lookup_above {A} v (l : list (Z * A)) :
+  Forall (fun p => fst p < v) l -> lookup v l = None.
+Proof.
+  induction l as [|[w a] l IH]; intros F; [reflexivity|]. inversion F; subst. cbn [lookup fst] in *.
+  replace (w =? v) with false by (symmetry; apply Z.eqb_neq; lia). auto.
+Qed.
+
+Section Simulation.
+  Variable H : bytes -> bytes.
+
+  Record sim (s1 : mstate) (s2 : v2tree) : Prop := Sim {
+    sim_inv : state_inv s1;
+    sim_hinv : hash_inv H s1;
+    sim_init : init_set s1 = false;
+    sim_ver : vt_version s2 = version s1;
+    sim_forest : Forall (fun p => fst p < version s1 + 1) (forest s1);
+    sim_root : oveq (version s1 + 1) (vt_root s2) (root s1);
+    sim_pers : opersisted (vt_root s2);
+    sim_hok : ohok H (vt_root s2)
+  }.
+
+  Lemma sim_init_state : sim (init_state 0 false) v2t_empty.
+  Proof.
+    constructor; cbn; auto.
+    - apply state_inv_init. lia.
+    - apply hash_inv_init. auto.
+  Qed.
+
+  Lemma sim_set s1 s2 k v :
+    sim s1 s2 ->
+    exists s2' u, v2t_set s2 k v = Some (s2', u) /\
+                  XBool u = snd (do_set s1 k v) /\ sim (fst (do_set s1 k v)) s2'.
+  Proof.
+    intros S. pose proof (MTreeFacts.step_inv H s1 (OSet k v) (sim_inv _ _ S)) as SI'.
+    pose proof (step_hash_inv H s1 (OSet k v) (sim_inv _ _ S) (sim_hinv _ _ S)) as HI'.
+    cbn [MTree.step] in SI', HI'.
+    pose proof (inv_version _ (sim_inv _ _ S)) as Hv.
+    pose proof (inv_root _ (sim_inv _ _ S)) as IR.
+    destruct S as [SI HI In Ev Fo Ro Pe Ho]. unfold v2t_set, do_set in *. rewrite Ev.
+    destruct (root s1) as [n1|] eqn:R1, (vt_root s2) as [n2|] eqn:R2; cbn [oveq] in Ro; try contradiction.
+    - cbn [oinv] in IR. destruct IR as [W1 A1].
+      assert (W2 : wf n2) by (eapply veq_wf; [apply veq_sym, Ro|exact W1]).
+      cbn [v2_root_set].
+      destruct (v2_set_defined (version s1 + 1) (vt_lseq s2 + 1) k v n2 W2) as ([n2' u2] & E).
+      rewrite E.
+      pose proof (v2_set_veq (version s1 + 1) (vt_lseq s2 + 1) k v n2 n1 Ro) as Rl.
+      rewrite E in Rl. cbn [vimp] in Rl. destruct Rl as [Rv Ru]. cbn [fst snd] in Rv, Ru.
+      destruct (set n1 k v) as [n1' u1] eqn:E1. cbn [fst snd] in *. subst u1.
+      eexists _, _. split; [reflexivity|]. split; [reflexivity|].
+      constructor; cbn [root version init_set forest vt_root vt_version]; auto.
+      + cbn [opersisted] in *. eapply v2_set_persisted; [|exact Pe|exact E]. lia.
+      + cbn [ohok] in *. eapply v2_set_hok; eauto.
+    - cbn [v2_root_set]. eexists _, _. split; [reflexivity|]. cbn [fst snd].
+      split; [reflexivity|].
+      constructor; cbn [root version init_set forest vt_root vt_version oveq veq]; auto.
+      + rewrite eff_ver_v2, eff_ver_new_meta. auto.
+      + cbn [opersisted all_persisted v2_meta ver]. lia.
+      + cbn [ohok v2_hok nmeta v2_meta hs]. auto.
+  Qed.
+
+  Lemma sim_remove s1 s2 k :
+    sim s1 s2 ->
+    exists s2' x, v2t_step H s2 (WRemove k) = Some (s2', x) /\
+                  x = snd (do_remove s1 k) /\ sim (fst (do_remove s1 k)) s2'.
+  Proof.
+    intros S. pose proof (MTreeFacts.step_inv H s1 (ORemove k) (sim_inv _ _ S)) as SI'.
+    pose proof (step_hash_inv H s1 (ORemove k) (sim_inv _ _ S) (sim_hinv _ _ S)) as HI'.
+    cbn [MTree.step] in SI', HI'.
+    pose proof (inv_version _ (sim_inv _ _ S)) as Hv.
+    pose proof (inv_root _ (sim_inv _ _ S)) as IR.
+    pose proof S as S0.
+    destruct S as [SI HI In Ev Fo Ro Pe Ho]. cbn [v2t_step]. unfold v2t_remove, do_remove in *.
+    cbv zeta in *. rewrite Ev.
+    destruct (root s1) as [n1|] eqn:R1, (vt_root s2) as [n2|] eqn:R2; cbn [oveq] in Ro; try contradiction.
+    - cbn [oinv] in IR. destruct IR as [W1 A1].
+      assert (W2 : wf n2) by (eapply veq_wf; [apply veq_sym, Ro|exact W1]).
+      assert (A2 : avl n2) by (eapply veq_avl; [apply veq_sym, Ro|exact A1]).
+      destruct (v2_remove_defined (version s1 + 1) k n2 W2 A2) as (res2 & E). rewrite E.
+      pose proof (v2_remove_veq (version s1 + 1) k n2 n1 Ro) as Rl. rewrite E in Rl.
+      cbn [vimp] in Rl. destruct Rl as (Rv & _ & Rs). rewrite <- Rv in SI', HI' |- *.
+      destruct (rm_val res2) as [val|].
+      + assert (NS : forall a b, sim (MState (rm_self (remove n1 k)) (version s1) (last_saved s1)
+                       (forest s1) (init_ver s1) (init_set s1) (init_opt s1))
+                       (V2Tree (rm_self res2) (version s1) a b)).
+        { intros a b. cbn [fst] in SI', HI'.
+          constructor; cbn [root version init_set forest vt_root vt_version]; auto.
+          - destruct (rm_self res2) as [t'|] eqn:S2; cbn [opersisted]; [|exact I].
+            eapply v2_remove_persisted; [|exact Pe|exact E|exact S2]. lia.
+          - destruct (rm_self res2) as [t'|] eqn:S2; cbn [ohok]; [|exact I].
+            eapply v2_remove_hok; [exact Ho|exact E|exact S2]. }
+        destruct (match leaf_ver n2 k with Some lv => lv =? version s1 + 1 | None => false end);
+          eexists _, _; (split; [reflexivity|]); cbn [fst snd]; (split; [reflexivity|]);
+          apply NS.
+      + eexists _, _. split; [reflexivity|]. cbn [fst snd]. split; [reflexivity|]. exact S0.
+    - eexists _, _. split; [reflexivity|]. cbn [fst snd]. split; [reflexivity|]. exact S0.
+  Qed.
+
+  Lemma sim_save s1 s2 :
+    sim s1 s2 ->
+    exists s2' x, v2t_step H s2 WSave = Some (s2', x) /\
+                  x = snd (do_save H s1) /\ sim (fst (do_save H s1)) s2'.
+  Proof.
+    intros S. pose proof (MTreeFacts.step_inv H s1 OSave (sim_inv _ _ S)) as SI'.
+    pose proof (step_hash_inv H s1 OSave (sim_inv _ _ S) (sim_hinv _ _ S)) as HI'.
+    cbn [MTree.step] in SI', HI'.
+    pose proof (inv_version _ (sim_inv _ _ S)) as Hv.
+    pose proof (hi_root H _ (sim_hinv _ _ S)) as HR.
+    destruct S as [SI HI In Ev Fo Ro Pe Ho].
+    assert (WV : working_version s1 = version s1 + 1).
+    { unfold working_version. rewrite In, andb_false_r. reflexivity. }
+    assert (L : lookup (version s1 + 1) (forest s1) = None) by (apply lookup_above, Fo).
+    cbn [v2t_step v2t_save]. unfold do_save, version_exists in *. cbv zeta in *.
+    rewrite WV in *. rewrite L in *. cbn [fst snd] in *.
+    eexists _, _. split; [reflexivity|]. cbn [vt_version].
+    assert (Hwv : version s1 + 1 <> 0) by lia.
+    destruct (root s1) as [n1|] eqn:R1, (vt_root s2) as [n2|] eqn:R2; cbn [oveq] in Ro; try contradiction.
+    - cbn [onode_ok] in HR. cbn [opersisted ohok] in Pe, Ho.
+      destruct (stamp_hash_ok H (version s1 + 1) 0 n1 HR ltac:(lia)) as (A & B & C & D).
+      destruct (v2_deep_hash_spec H n2 Ho) as (D1 & D2 & D3 & D4).
+      split.
+      + rewrite Ev. f_equal. f_equal. f_equal.
+        rewrite (root_hash_stored H _ _ B), C. cbn [v2_compute_hash]. rewrite D1, v2_hash_pure.
+        rewrite (pure_hash_persisted H n2 Pe 0 (version s1 + 1)).
+        apply pure_hash_ext, veq_shape_eq, Ro.
+      + constructor; cbn [root version init_set forest vt_root vt_version]; auto.
+        * lia.
+        * apply Forall_app. split.
+          -- eapply Forall_impl; [|exact Fo]. cbn. intros; lia.
+          -- constructor; [cbn; lia|constructor].
+        * cbn [oveq]. apply (veq_persisted_any (version s1 + 1)).
+          -- apply v2_deep_hash_persisted, Pe.
+          -- exact B.
+          -- eapply veq_trans; [apply D4|]. eapply veq_trans; [exact Ro|]. apply stamp_veq, Hwv.
+        * cbn [opersisted]. apply v2_deep_hash_persisted, Pe.
+    - split.
+      + rewrite Ev. reflexivity.
+      + constructor; cbn [root version init_set forest vt_root vt_version oveq opersisted ohok]; auto.
+        * lia.
+        * apply Forall_app. split.
+          -- eapply Forall_impl; [|exact Fo]. cbn. intros; lia.
+          -- constructor; [cbn; lia|constructor].
+  Qed.
+
+  Lemma sim_step s1 s2 o :
+    sim s1 s2 ->
+    exists s2' x, v2t_step H s2 o = Some (s2', x) /\
+                  x = snd (MTree.step H s1 (wop_v1 o)) /\ sim (fst (MTree.step H s1 (wop_v1 o))) s2'.
+  Proof.
+    intros S. destruct o as [k v|k|]; cbn [wop_v1 MTree.step].
+    - destruct (sim_set s1 s2 k v S) as (s2' & u & E & X & S'). cbn [v2t_step]. rewrite E. eauto.
+    - apply sim_remove, S.
+    - apply sim_save, S.
+  Qed.
+
+  Lemma sim_run ops : forall s1 s2,
+    sim s1 s2 ->
+    exists s2' xs, v2t_run H s2 ops = Some (s2', xs) /\
+                   xs = snd (MTree.run H s1 (map wop_v1 ops)) /\
+                   sim (fst (MTree.run H s1 (map wop_v1 ops))) s2'.
+  Proof.
+    induction ops as [|o ops IH]; intros s1 s2 S; cbn [v2t_run map MTree.run].
+    - eexists _, _. split; [reflexivity|]. cbn [fst snd]. auto.
+    - destruct (sim_step s1 s2 o S) as (s2a & x & E & X & S'). rewrite E.
+      destruct (MTree.step H s1 (wop_v1 o)) as [s1a x1]. cbn [fst snd] in *. subst x1.
+      destruct (IH s1a s2a S') as (s2b & xs & E2 & X2 & S2). rewrite E2.
+      destruct (MTree.run H s1a (map wop_v1 ops)) as [s1b xs1]. cbn [fst snd] in *. subst xs1.
+      eexists _, _. split; [reflexivity|]. auto.
+  Qed.
+
+  (** v2 never fails on a history of writes and commits, and answers every operation as v1
+      does: the same "updated" flags, removed values, versions and ROOT HASHES. *)
+  Theorem v2_same_hash ops :
+    exists s2 xs,
+      v2t_run H v2t_empty ops = Some (s2, xs) /\
+      xs = snd (MTree.run H (init_state 0 false) (map wop_v1 ops)) /\
+      sim (fst (MTree.run H (init_state 0 false) (map wop_v1 ops))) s2.
+  Proof. apply sim_run, sim_init_state. Qed.
+End Simulation.
+
+(** ** Reads: every read of a v2 tree is the read of the related v1 tree, so the v1 results
+    (C01 reads against the sorted-list specification, C11 balance) transfer. *)
+Lemma veq_get wv k t1 : forall t2, veq wv t1 t2 -> get t1 k = get t2 k.
+Proof.
+  induction t1 as [lk lv m|nk h s m l IHl r IHr]; intros [lk2 lv2 m2|nk2 h2 s2 m2 l2 r2];
+    cbn [veq]; try tauto.
+  - intros (A & B & _). subst. reflexivity.
+  - intros (A & B & C & D & E & F). subst. cbn [get].
+    rewrite (IHl _ E), (IHr _ F), (veq_size _ _ _ F). reflexivity.
+Qed.
+
+Lemma veq_has wv k t1 : forall t2, veq wv t1 t2 -> has t1 k = has t2 k.
+Proof.
+  induction t1 as [lk lv m|nk h s m l IHl r IHr]; intros [lk2 lv2 m2|nk2 h2 s2 m2 l2 r2];
+    cbn [veq]; try tauto.
+  - intros (A & B & _). subst. reflexivity.
+  - intros (A & B & C & D & E & F). subst. cbn [has nkey].
+    rewrite (IHl _ E), (IHr _ F). reflexivity.
+Qed.
+
+Lemma veq_get_by_index wv t1 : forall t2 i, veq wv t1 t2 -> get_by_index t1 i = get_by_index t2 i.
+Proof.
+  induction t1 as [lk lv m|nk h s m l IHl r IHr]; intros [lk2 lv2 m2|nk2 h2 s2 m2 l2 r2] i;
+    cbn [veq]; try tauto.
+  - intros (A & B & _). subst. reflexivity.
+  - intros (A & B & C & D & E & F). subst. cbn [get_by_index].
+    rewrite (IHl _ _ E), (IHr _ _ F), (veq_size _ _ _ E). reflexivity.
+Qed.
+
+Theorem v2_reads_transfer wv t2 t1 :
+  veq wv t2 t1 ->
+  (forall k, get t2 k = get t1 k) /\ (forall k, has t2 k = has t1 k) /\
+  (forall i, get_by_index t2 i = get_by_index t1 i) /\
+  size t2 = size t1 /\ height t2 = height t1 /\ elems t2 = elems t1 /\
+  (wf t1 -> wf t2) /\ (avl t1 -> avl t2) /\
+  (forall H, pure_hash H wv t2 = pure_hash H wv t1).
+Proof.
+  intros E. repeat split.
+  - intros k. apply (veq_get _ _ _ _ E).
+  - intros k. apply (veq_has _ _ _ _ E).
+  - intros i. apply (veq_get_by_index _ _ _ _ E).
+  - apply (veq_size _ _ _ E).
+  - apply (veq_height _ _ _ E).
+  - apply (veq_elems _ _ _ E).
+  - apply (veq_wf _ _ _ (veq_sym _ _ _ E)).
+  - apply (veq_avl _ _ _ (veq_sym _ _ _ E)).
+  - intros H. apply pure_hash_ext, veq_shape_eq, E.
+Qed.
+
+(** the step-level statements in the [shape_eq] vocabulary of HashFacts *)
+Theorem v2_set_shape wv sq t k v :
+  wf t ->
+  exists t' , v2_set wv sq t k v = Some (t', snd (set t k v)) /\
+              veq wv t' (fst (set t k v)) /\ shape_eq wv t' (fst (set t k v)).
+Proof.
+  intros W. destruct (v2_set_defined wv sq k v t W) as ([t' u] & E).
+  pose proof (v2_set_veq wv sq k v t t (veq_refl wv t)) as R. rewrite E in R.
+  destruct R as [R1 R2]. cbn [fst snd] in *. subst u.
+  exists t'. split; [exact E|]. split; [exact R1|apply veq_shape_eq, R1].
+Qed.
+
+Theorem v2_remove_shape wv t k :
+  wf t -> avl t ->
+  exists res, v2_remove wv t k = Some res /\
+    rm_val res = rm_val (remove t k) /\ rm_key res = rm_key (remove t k) /\
+    match rm_self res, rm_self (remove t k) with
+    | Some x, Some y => veq wv x y /\ shape_eq wv x y
+    | None, None => True
+    | _, _ => False
+    end.
+Proof.
+  intros W A. destruct (v2_remove_defined wv k t W A) as (res & E).
+  pose proof (v2_remove_veq wv k t t (veq_refl wv t)) as R. rewrite E in R.
+  destruct R as (R1 & R2 & R3). exists res. repeat split; auto.
+  destruct (rm_self res), (rm_self (remove t k)); auto using veq_shape_eq.
+Qed.
+
+(** * 2. The TreeIterator (item 3) *)
+
+Lemma dsorted_app_r asc (a b : kvs) : dsorted asc (a ++ b) -> dsorted asc b.
+Proof.
+  induction a as [|[k v] a IH]; cbn [app dsorted]; [auto|]. intros [_ S]. auto.
+Qed.
+
+Lemma filter_nil_Forall {A} (f : A -> bool) l : Forall (fun x => f x = false) l -> filter f l = [].
+Proof.
+  induction l as [|x l IH]; intros F; [reflexivity|]. inversion F; subst. cbn [filter].
+  rewrite H1. auto.
+Qed.
+
+Lemma filter_rev' {A} (f : A -> bool) l : filter f (rev l) = rev (filter f l).
+Proof.
+  induction l as [|x l IH]; [reflexivity|]. cbn [rev filter]. rewrite filter_app, IH. cbn [filter].
+  destruct (f x); cbn [rev]; [reflexivity|]. rewrite app_nil_r. reflexivity.
+Qed.
+
+Lemma v2_nodes_pos t : (0 < v2_nodes t)%nat.
+Proof. destruct t; cbn [v2_nodes]; lia. Qed.
+
+Lemma elems_le_nodes t : (length (elems t) <= v2_nodes t)%nat.
+Proof.
+  induction t as [|k h s m l IHl r IHr]; cbn [elems v2_nodes length]; [lia|].
+  rewrite app_length. lia.
+Qed.
+
+Lemma not_lt_nil (x : bytes) : ~ x <b [].
+Proof. unfold BytesO.lt. destruct x; cbn; auto. Qed.
+
+Definition nodes_of (st : list node) : nat := fold_right (fun n a => (v2_nodes n + a)%nat) 0%nat st.
+Ltac nodes_lia := unfold nodes_of in *; cbn [fold_right v2_nodes] in *; lia.
+
+Section IterProofs.
+  Variables (start stop : option bytes) (incl : bool).
+
+  Definition lo (k : bytes) : bool := match start with None => true | Some s => ble s k end.
+  Definition hi (i : bool) (k : bytes) : bool :=
+    match stop with None => true | Some e => if i then ble k e else blt k e end.
+
+  Lemma in_range_lo_hi i k : in_range start stop i k = lo k && hi i k.
+  Proof. reflexivity. Qed.
+
+  Lemma start_test k : blt k (onil start) = negb (lo k).
+  Proof.
+    unfold lo, onil. destruct start as [s|].
+    - unfold blt, ble. rewrite (bcmp_antisym k s). destruct (bcmp k s); reflexivity.
+    - unfold blt. destruct k; reflexivity.
+  Qed.
+
+  Lemma past_end_asc_hi k : past_end_asc stop incl k = negb (hi incl k).
+  Proof.
+    unfold past_end_asc, hi. destruct stop as [e|]; [|reflexivity].
+    unfold blt, ble. rewrite (bcmp_antisym k e). destruct incl, (bcmp k e); reflexivity.
+  Qed.
+
+  Lemma past_end_desc_lo k : past_end_desc start k = negb (lo k).
+  Proof.
+    unfold past_end_desc, lo. destruct start as [s|]; [|reflexivity].
+    unfold blt, ble. rewrite (bcmp_antisym k s). destruct (bcmp k s); reflexivity.
+  Qed.
+
+  (** the inclusive flag is ignored by stepDescend's leaf test *)
+  Lemma skip_desc_hi k : skip_desc stop incl k = negb (hi false k).
+  Proof.
+    unfold skip_desc, hi. destruct stop as [e|]; [|reflexivity].
+    unfold blt, ble. rewrite (bcmp_antisym k e). destruct incl, (bcmp k e); reflexivity.
+  Qed.
+
+  Lemma lo_mono k k' : k <b k' -> lo k = true -> lo k' = true.
+  Proof.
+    unfold lo. destruct start as [s|]; [|auto]. intros L E. btests. apply ble_true. border.
+  Qed.
+  Lemma hi_mono i k k' : k <b k' -> hi i k = false -> hi i k' = false.
+  Proof.
+    unfold hi. destruct stop as [e|]; [|discriminate]. intros L E.
+    destruct i; btests; [apply ble_false|apply blt_false]; border.
+  Qed.
+  Lemma lo_mono_inv k k' : k <b k' -> lo k' = false -> lo k = false.
+  Proof.
+    intros L E. destruct (lo k) eqn:C; [|reflexivity]. rewrite (lo_mono _ _ L C) in E. discriminate.
+  Qed.
+  Lemma hi_mono_inv i k k' : k <b k' -> hi i k' = true -> hi i k = true.
+  Proof.
+    intros L E. destruct (hi i k) eqn:C; [reflexivity|]. rewrite (hi_mono _ _ _ L C) in E. discriminate.
+  Qed.
+
+  (** what a stack stands for *)
+  Definition rem_asc (st : list node) : kvs := flat_map elems st.
+  Definition rem_desc (st : list node) : kvs := flat_map (fun n => rev (elems n)) st.
+
+  Definition sel (i : bool) (p : bytes * bytes) : bool := in_range start stop i (fst p).
+
+  Definition inv_asc (st : list node) (started : bool) : Prop :=
+    Forall wf st /\ dsorted true (rem_asc st) /\
+    (started = true -> Forall (fun p => lo (fst p) = true) (rem_asc st)).
+
+  Definition inv_desc (st : list node) (started : bool) : Prop :=
+    Forall wf st /\ dsorted false (rem_desc st) /\
+    (started = true -> Forall (fun p => hi false (fst p) = true) (rem_desc st)).
+
+  (** the contract of one Next() *)
+  Definition next_ok (inv : list node -> bool -> Prop) (remf : list node -> kvs)
+             (f : bytes * bytes -> bool) (st : list node)
+             (r : option (bytes * bytes) * list node) : Prop :=
+    match filter f (remf st) with
+    | [] => fst r = None
+    | kv :: tl =>
+        fst r = Some kv /\ inv (snd r) true /\ filter f (remf (snd r)) = tl /\
+        (nodes_of (snd r) < nodes_of st)%nat
+    end.
+
+  Lemma next_ok_weaken inv remf f st st0 r :
+    filter f (remf st0) = filter f (remf st) -> (nodes_of st <= nodes_of st0)%nat ->
+    next_ok inv remf f st r -> next_ok inv remf f st0 r.
+  Proof.
+    unfold next_ok. intros -> L. destruct (filter f (remf st)); [auto|].
+    intros (A & B & C & D). repeat split; auto. lia.
+  Qed.
+
+  Lemma step_asc_ok fuel : forall st started,
+    inv_asc st started -> (nodes_of st < fuel)%nat ->
+    exists r, v2_step_asc start stop incl fuel st started = Some r /\
+              next_ok inv_asc rem_asc (sel incl) st r.
+  Proof.
+    induction fuel as [|f IH]; intros st started (W & S & L) F; [lia|].
+    destruct st as [|n st']; cbn [v2_step_asc].
+    { eexists. split; [reflexivity|]. unfold next_ok. cbn. reflexivity. }
+    inversion W as [|? ? Wn Wst]; subst.
+    destruct n as [k v m|nk h s m l r].
+    - (* leaf *)
+      cbn [rem_asc flat_map elems app] in S, L. cbn [dsorted] in S. destruct S as [Fk S'].
+      rewrite start_test, past_end_asc_hi.
+      destruct (negb started && negb (lo k)) eqn:T1.
+      + apply andb_prop in T1. destruct T1 as [T1 T2]. apply negb_true_iff in T1, T2. subst started.
+        destruct (IH st' false) as (r & E & Ok).
+        { split; [exact Wst|]. split; [exact S'|discriminate]. }
+        { nodes_lia. }
+        exists r. split; [exact E|].
+        eapply next_ok_weaken; [| |exact Ok].
+        * cbn [rem_asc flat_map elems app filter]. unfold sel at 1. cbn [fst].
+          rewrite in_range_lo_hi, T2. reflexivity.
+        * nodes_lia.
+      + assert (Lk : lo k = true).
+        { apply andb_false_iff in T1. destruct T1 as [T1|T1].
+          - apply negb_false_iff in T1. specialize (L T1). inversion L; subst. assumption.
+          - apply negb_false_iff in T1. exact T1. }
+        destruct (hi incl k) eqn:Hk; cbn [negb].
+        * eexists. split; [reflexivity|]. unfold next_ok.
+          cbn [rem_asc flat_map elems app filter]. unfold sel at 1. cbn [fst].
+          rewrite in_range_lo_hi, Lk, Hk. cbn [andb fst snd].
+          split; [reflexivity|]. split; [|split; [reflexivity|nodes_lia]].
+          split; [exact Wst|]. split; [exact S'|]. intros _.
+          eapply Forall_impl; [|exact Fk]. cbn. intros p Hp. exact (lo_mono _ _ Hp Lk).
+        * eexists. split; [reflexivity|]. unfold next_ok.
+          cbn [rem_asc flat_map elems app filter]. unfold sel at 1. cbn [fst].
+          rewrite in_range_lo_hi, Hk, andb_false_r.
+          rewrite filter_nil_Forall; [reflexivity|].
+          eapply Forall_impl; [|exact Fk]. cbn. intros p Hp. unfold sel.
+          rewrite in_range_lo_hi, (hi_mono _ _ _ Hp Hk). apply andb_false_r.
+    - (* branch *)
+      cbn [wf] in Wn. destruct Wn as (Wl & Wr & Kl & _).
+      destruct (blt (onil start) nk) eqn:T.
+      + destruct (IH (l :: r :: st') started) as (r0 & E & Ok).
+        { split; [auto|]. cbn [rem_asc flat_map elems] in *. rewrite <- app_assoc in S, L. auto. }
+        { nodes_lia. }
+        exists r0. split; [exact E|].
+        eapply next_ok_weaken; [| |exact Ok].
+        * cbn [rem_asc flat_map elems]. rewrite <- app_assoc. reflexivity.
+        * nodes_lia.
+      + assert (NL : Forall (fun p => sel incl p = false) (elems l)).
+        { apply keys_all_elems in Kl. eapply Forall_impl; [|exact Kl]. cbn. intros p Hp.
+          unfold sel. rewrite in_range_lo_hi. btests.
+          replace (lo (fst p)) with false; [reflexivity|]. symmetry.
+          unfold lo, onil in *. destruct start as [s0|].
+          - apply ble_false. border.
+          - exfalso. apply (not_lt_nil (fst p)). border. }
+        cbn [rem_asc flat_map elems] in S, L. rewrite <- app_assoc in S, L.
+        destruct (IH (r :: st') started) as (r0 & E & Ok).
+        { split; [auto|]. split; [exact (dsorted_app_r _ _ _ S)|].
+          intros St. specialize (L St). apply Forall_app in L. apply L. }
+        { nodes_lia. }
+        exists r0. split; [exact E|].
+        eapply next_ok_weaken; [| |exact Ok].
+        * cbn [rem_asc flat_map elems]. rewrite <- app_assoc, filter_app, (filter_nil_Forall _ _ NL).
+          reflexivity.
+        * nodes_lia.
+  Qed.
+
+  Lemma step_desc_ok fuel : forall st started,
+    inv_desc st started -> (nodes_of st < fuel)%nat ->
+    exists r, v2_step_desc start stop incl fuel st started = Some r /\
+              next_ok inv_desc rem_desc (sel false) st r.
+  Proof.
+    induction fuel as [|f IH]; intros st started (W & S & L) F; [lia|].
+    destruct st as [|n st']; cbn [v2_step_desc].
+    { eexists. split; [reflexivity|]. unfold next_ok. cbn. reflexivity. }
+    inversion W as [|? ? Wn Wst]; subst.
+    destruct n as [k v m|nk h s m l r].
+    - (* leaf *)
+      cbn [rem_desc flat_map elems rev app] in S, L. cbn [dsorted] in S. destruct S as [Fk S'].
+      rewrite skip_desc_hi, past_end_desc_lo.
+      destruct (negb started && negb (hi false k)) eqn:T1.
+      + apply andb_prop in T1. destruct T1 as [T1 T2]. apply negb_true_iff in T1, T2. subst started.
+        destruct (IH st' false) as (r & E & Ok).
+        { split; [exact Wst|]. split; [exact S'|discriminate]. }
+        { nodes_lia. }
+        exists r. split; [exact E|].
+        eapply next_ok_weaken; [| |exact Ok].
+        * cbn [rem_desc flat_map elems rev app filter]. unfold sel at 1. cbn [fst].
+          rewrite in_range_lo_hi, T2, andb_false_r. reflexivity.
+        * nodes_lia.
+      + assert (Hk : hi false k = true).
+        { apply andb_false_iff in T1. destruct T1 as [T1|T1].
+          - apply negb_false_iff in T1. specialize (L T1). inversion L; subst. assumption.
+          - apply negb_false_iff in T1. exact T1. }
+        destruct (lo k) eqn:Lk; cbn [negb].
+        * eexists. split; [reflexivity|]. unfold next_ok.
+          cbn [rem_desc flat_map elems rev app filter]. unfold sel at 1. cbn [fst].
+          rewrite in_range_lo_hi, Lk, Hk. cbn [andb fst snd].
+          split; [reflexivity|]. split; [|split; [reflexivity|nodes_lia]].
+          split; [exact Wst|]. split; [exact S'|]. intros _.
+          eapply Forall_impl; [|exact Fk]. cbn. intros p Hp. exact (hi_mono_inv _ _ _ Hp Hk).
+        * eexists. split; [reflexivity|]. unfold next_ok.
+          cbn [rem_desc flat_map elems rev app filter]. unfold sel at 1. cbn [fst].
+          rewrite in_range_lo_hi, Lk. cbn [andb].
+          rewrite filter_nil_Forall; [reflexivity|].
+          eapply Forall_impl; [|exact Fk]. cbn. intros p Hp. unfold sel.
+          rewrite in_range_lo_hi, (lo_mono_inv _ _ Hp Lk). reflexivity.
+    - (* branch *)
+      cbn [wf] in Wn. destruct Wn as (Wl & Wr & _ & Kr & _).
+      assert (RE : rem_desc (Inner nk h s m l r :: st') =
+                   rev (elems r) ++ rev (elems l) ++ rem_desc st').
+      { cbn [rem_desc flat_map elems]. rewrite rev_app_distr, <- app_assoc. reflexivity. }
+      rewrite RE in S, L.
+      destruct (match stop with None => true | Some e => ble nk e end) eqn:T.
+      + destruct (IH (r :: l :: st') started) as (r0 & E & Ok).
+        { split; [auto|]. cbn [rem_desc flat_map] in *. auto. }
+        { nodes_lia. }
+        exists r0. split; [exact E|].
+        eapply next_ok_weaken; [| |exact Ok].
+        * rewrite RE. reflexivity.
+        * nodes_lia.
+      + assert (NR : Forall (fun p => sel false p = false) (rev (elems r))).
+        { apply keys_all_elems in Kr. apply Forall_rev. eapply Forall_impl; [|exact Kr]. cbn.
+          intros p Hp. unfold sel. rewrite in_range_lo_hi.
+          replace (hi false (fst p)) with false; [apply andb_false_r|]. symmetry.
+          unfold hi. destruct stop as [e|]; [|discriminate]. btests. apply blt_false. border. }
+        destruct (IH (l :: st') started) as (r0 & E & Ok).
+        { split; [auto|]. split; [exact (dsorted_app_r _ _ _ S)|].
+          intros St. specialize (L St). apply Forall_app in L. apply L. }
+        { nodes_lia. }
+        exists r0. split; [exact E|].
+        eapply next_ok_weaken; [| |exact Ok].
+        * rewrite RE, filter_app, (filter_nil_Forall _ _ NR). reflexivity.
+        * nodes_lia.
+  Qed.
+
+  (** draining an iterator *)
+  Lemma collect_ok asc (inv : list node -> bool -> Prop) remf f :
+    (forall fuel st started, inv st started -> (nodes_of st < fuel)%nat ->
+       exists r, v2_next start stop incl asc fuel st started = Some r /\ next_ok inv remf f st r) ->
+    forall n fuel st started,
+      inv st started -> (nodes_of st < fuel)%nat -> (length (filter f (remf st)) < n)%nat ->
+      v2_collect start stop incl asc n fuel st started = Some (filter f (remf st)).
+  Proof.
+    intros Hstep. induction n as [|n IH]; intros fuel st started I F Ln; [lia|].
+    cbn [v2_collect]. destruct (Hstep fuel st started I F) as ([o st'] & E & Ok). rewrite E.
+    unfold next_ok in Ok. cbn [fst snd] in Ok.
+    destruct (filter f (remf st)) as [|kv tl] eqn:Fl.
+    - subst o. reflexivity.
+    - destruct Ok as (-> & I' & Fl' & N').
+      rewrite (IH fuel st' true I'); [rewrite Fl'; reflexivity|lia|rewrite Fl'; cbn [length] in Ln; lia].
+  Qed.
+
+  Lemma next_asc_ok fuel st started :
+    inv_asc st started -> (nodes_of st < fuel)%nat ->
+    exists r, v2_next start stop incl true fuel st started = Some r /\
+              next_ok inv_asc rem_asc (sel incl) st r.
+  Proof.
+    intros I F. destruct st as [|n st'].
+    - eexists. split; [reflexivity|]. unfold next_ok. cbn. reflexivity.
+    - cbn [v2_next]. apply step_asc_ok; assumption.
+  Qed.
+
+  Lemma next_desc_ok fuel st started :
+    inv_desc st started -> (nodes_of st < fuel)%nat ->
+    exists r, v2_next start stop incl false fuel st started = Some r /\
+              next_ok inv_desc rem_desc (sel false) st r.
+  Proof.
+    intros I F. destruct st as [|n st'].
+    - eexists. split; [reflexivity|]. unfold next_ok. cbn. reflexivity.
+    - cbn [v2_next]. apply step_desc_ok; assumption.
+  Qed.
+End IterProofs.
+
+(** Item 3.  Forward iteration (inclusive or not) is the range selection of the sorted
+    leaf list. *)
+Theorem v2_iter_spec_asc t start stop incl :
+  wf t ->
+  v2_iter_collect (Some t) start stop incl true = Some (range_spec (elems t) start stop incl true).
+Proof.
+  intros W. unfold v2_iter_collect, range_spec.
+  rewrite (collect_ok start stop incl true (inv_asc start) rem_asc (sel start stop incl)
+             (next_asc_ok start stop incl)).
+  - cbn [rem_asc flat_map]. rewrite app_nil_r. reflexivity.
+  - split; [auto|]. split; [|discriminate]. cbn [rem_asc flat_map]. rewrite app_nil_r.
+    apply dsorted_true, wf_sorted, W.
+  - nodes_lia.
+  - cbn [rem_asc flat_map]. rewrite app_nil_r.
+    pose proof (filter_length_le (sel start stop incl) (elems t)). pose proof (elems_le_nodes t). lia.
+Qed.
+
+(** Reverse iteration is the reversed EXCLUSIVE range selection, whatever the [inclusive]
+    field says (the public ReverseIterator always passes [false]). *)
+Theorem v2_iter_spec_desc t start stop incl :
+  wf t ->
+  v2_iter_collect (Some t) start stop incl false =
+    Some (range_spec (elems t) start stop false false).
+Proof.
+  intros W. unfold v2_iter_collect, range_spec.
+  rewrite (collect_ok start stop incl false (inv_desc stop) rem_desc (sel start stop false)
+             (next_desc_ok start stop incl)).
+  - cbn [rem_desc flat_map]. rewrite app_nil_r, filter_rev'. reflexivity.
+  - split; [auto|]. split; [|discriminate]. cbn [rem_desc flat_map]. rewrite app_nil_r.
+    change false with (negb true). apply dsorted_rev, dsorted_true, wf_sorted, W.
+  - nodes_lia.
+  - cbn [rem_desc flat_map]. rewrite app_nil_r, filter_rev', rev_length.
+    pose proof (filter_length_le (sel start stop false) (elems t)). pose proof (elems_le_nodes t). lia.
+Qed.
+
+Theorem v2_iter_spec root start stop incl asc :
+  oinv root ->
+  v2_iter_collect root start stop incl asc =
+    Some (range_spec (oelems root) start stop (incl && asc) asc).
+Proof.
+  destruct root as [t|]; cbn [oinv oelems].
+  - intros [W _]. destruct asc.
+    + rewrite andb_true_r. apply v2_iter_spec_asc, W.
+    + rewrite andb_false_r. apply v2_iter_spec_desc, W.
+  - intros _. cbn [v2_iter_collect]. unfold range_spec. cbn. destruct asc; reflexivity.
+Qed.
+
+(** The [inclusive] branch of stepDescend is wrong: the end key itself is skipped.  It cannot
+    be reached through the public API (ReverseIterator hard-codes inclusive = false). *)
+Theorem v2_iter_desc_inclusive_refuted :
+  exists t start stop,
+    wf t /\
+    v2_iter_collect (Some t) start stop true false <>
+      Some (range_spec (elems t) start stop true false).
+Proof.
+  exists (Inner [2%N] 1 2 new_meta (Leaf [1%N] [10%N] new_meta) (Leaf [2%N] [20%N] new_meta)),
+         None, (Some [2%N]).
+  split.
+  - cbn [wf keys_all min_key height size]. repeat split; try reflexivity; cbn; auto.
+  - vm_compute. discriminate.
+Qed.
+
+(** [v2_same_hash] with the consequences of the simulation relation spelled out *)
+Theorem v2_same_hash_full (H : bytes -> bytes) (ops : list wop) :
+  let r1 := MTree.run H (init_state 0 false) (map wop_v1 ops) in
+  exists s2 xs,
+    v2t_run H v2t_empty ops = Some (s2, xs) /\
+    xs = snd r1 /\
+    vt_version s2 = version (fst r1) /\
+    oveq (version (fst r1) + 1) (vt_root s2) (root (fst r1)) /\
+    oelems (vt_root s2) = oelems (root (fst r1)) /\
+    (forall H', opure_hash H' (version (fst r1) + 1) (vt_root s2) =
+                opure_hash H' (version (fst r1) + 1) (root (fst r1))) /\
+    oinv (vt_root s2).
+Proof.
+  intros r1. destruct (v2_same_hash H ops) as (s2 & xs & E & X & S). fold r1 in X, S.
+  exists s2, xs. split; [exact E|]. split; [exact X|].
+  pose proof (sim_root _ _ _ S) as R. pose proof (inv_root _ (sim_inv _ _ _ S)) as IR.
+  split; [apply (sim_ver _ _ _ S)|]. split; [exact R|].
+  destruct (vt_root s2) as [n2|], (root (fst r1)) as [n1|]; cbn [oveq] in R; try contradiction;
+    cbn [oelems opure_hash oinv] in *.
+  - split; [apply (veq_elems _ _ _ R)|]. split.
+    + intros H'. apply pure_hash_ext, veq_shape_eq, R.
+    + destruct IR as [W A]. split.
+      * apply (veq_wf _ _ _ (veq_sym _ _ _ R) W).
+      * apply (veq_avl _ _ _ (veq_sym _ _ _ R) A).
+  - auto.
+Qed.
+
+(** * 3. Persistence (C20) *)
+
+(** ** The leaves of a tree with their metadata *)
+Fixpoint leaves (t : node) : list (bytes * bytes * meta) :=
+  match t with
+  | Leaf k v m => [(k, v, m)]
+  | Inner _ _ _ _ l r => leaves l ++ leaves r
+  end.
+
+Definition oleaves (t : option node) : list (bytes * bytes * meta) :=
+  match t with Some n => leaves n | None => [] end.
+
+Lemma v2_rotR_leaves wv t t' : v2_rotR wv t = Some t' -> leaves t' = leaves t.
+Proof.
+  destruct t as [|k h s m l r]; [discriminate|]. destruct l as [|lk lh ls lm ll lr]; [discriminate|].
+  cbn [v2_rotR]. intros E; injection E as <-. cbn [v2_node leaves]. apply app_assoc.
+Qed.
+
+Lemma v2_rotL_leaves wv t t' : v2_rotL wv t = Some t' -> leaves t' = leaves t.
+Proof.
+  destruct t as [|k h s m l r]; [discriminate|]. destruct r as [|rk rh rs rm rl rr]; [discriminate|].
+  cbn [v2_rotL]. intros E; injection E as <-. cbn [v2_node leaves]. symmetry. apply app_assoc.
+Qed.
+
+Lemma v2_balance_leaves wv t t' : v2_balance wv t = Some t' -> leaves t' = leaves t.
+Proof.
+  destruct t as [|k h s m l r]; [discriminate|]. cbn [v2_balance].
+  destruct (hs m); [|discriminate].
+  destruct (1 <? height l - height r).
+  - destruct (0 <=? bal_of l); [apply v2_rotR_leaves|].
+    destruct (v2_rotL wv l) as [l'|] eqn:E; [|discriminate].
+    intros E2. rewrite (v2_rotR_leaves _ _ _ E2). cbn [leaves].
+    rewrite (v2_rotL_leaves _ _ _ E). reflexivity.
+  - destruct (height l - height r <? -1); [|intros E; injection E as <-; reflexivity].
+    destruct (bal_of r <=? 0); [apply v2_rotL_leaves|].
+    destruct (v2_rotR wv r) as [r'|] eqn:E; [|discriminate].
+    intros E2. rewrite (v2_rotL_leaves _ _ _ E2). cbn [leaves].
+    rewrite (v2_rotR_leaves _ _ _ E). reflexivity.
+Qed.
+
+(** a Set inserts one leaf or replaces the leaf of the same key; all others are untouched *)
+Lemma v2_set_leaves wv sq k v t : forall t' u,
+  v2_set wv sq t k v = Some (t', u) ->
+  exists l1 l2,
+    leaves t' = l1 ++ (k, v, v2_meta wv sq) :: l2 /\
+    (if u then exists v0 m0, leaves t = l1 ++ (k, v0, m0) :: l2 else leaves t = l1 ++ l2).
+Proof.
+  induction t as [lk lv m|nk h s m l IHl r IHr]; intros t' u; cbn [v2_set].
+  - destruct (bcmp k lk) eqn:C; intros E; injection E as <- <-; cbn [leaves].
+    + apply bcmp_eq in C. subst lk. exists [], []. split; [reflexivity|]. exists lv, m. reflexivity.
+    + exists [], [(lk, lv, m)]. split; reflexivity.
+    + exists [(lk, lv, m)], []. split; reflexivity.
+  - destruct (blt k nk).
+    + destruct (v2_set wv sq l k v) as [[l' upd]|]; [|discriminate].
+      destruct (IHl l' upd eq_refl) as (l1 & l2 & E1 & E2).
+      assert (G : forall t1, leaves t1 = leaves l' ++ leaves r -> exists l1 l2,
+                  leaves t1 = l1 ++ (k, v, v2_meta wv sq) :: l2 /\
+                  (if upd then exists v0 m0, leaves l ++ leaves r = l1 ++ (k, v0, m0) :: l2
+                   else leaves l ++ leaves r = l1 ++ l2)).
+      { intros t1 ->. exists l1, (l2 ++ leaves r). rewrite E1, <- app_assoc. split; [reflexivity|].
+        destruct upd.
+        - destruct E2 as (v0 & m0 & ->). exists v0, m0. rewrite <- app_assoc. reflexivity.
+        - rewrite E2, <- app_assoc. reflexivity. }
+      destruct upd.
+      * intros E; injection E as <- <-. apply G. reflexivity.
+      * destruct (v2_balance wv (v2_node wv nk l' r)) as [t1|] eqn:B; [|discriminate].
+        intros E; injection E as <- <-. apply G. rewrite (v2_balance_leaves _ _ _ B). reflexivity.
+    + destruct (v2_set wv sq r k v) as [[r' upd]|]; [|discriminate].
+      destruct (IHr r' upd eq_refl) as (l1 & l2 & E1 & E2).
+      assert (G : forall t1, leaves t1 = leaves l ++ leaves r' -> exists l1 l2,
+                  leaves t1 = l1 ++ (k, v, v2_meta wv sq) :: l2 /\
+                  (if upd then exists v0 m0, leaves l ++ leaves r = l1 ++ (k, v0, m0) :: l2
+                   else leaves l ++ leaves r = l1 ++ l2)).
+      { intros t1 ->. exists (leaves l ++ l1), l2. rewrite E1, <- app_assoc. split; [reflexivity|].
+        destruct upd.
+        - destruct E2 as (v0 & m0 & ->). exists v0, m0. rewrite <- app_assoc. reflexivity.
+        - rewrite E2, <- app_assoc. reflexivity. }
+      destruct upd.
+      * intros E; injection E as <- <-. apply G. reflexivity.
+      * destruct (v2_balance wv (v2_node wv nk l r')) as [t1|] eqn:B; [|discriminate].
+        intros E; injection E as <- <-. apply G. rewrite (v2_balance_leaves _ _ _ B). reflexivity.
+Qed.
+
+(** a successful Remove deletes exactly the leaf [leaf_ver] looks at *)
+Lemma v2_remove_leaves wv k t : forall res val,
+  v2_remove wv t k = Some res -> rm_val res = Some val ->
+  exists l1 v0 m0 l2,
+    leaves t = l1 ++ (k, v0, m0) :: l2 /\ leaf_ver t k = Some (ver m0) /\
+    match rm_self res with
+    | Some t' => leaves t' = l1 ++ l2
+    | None => l1 = [] /\ l2 = []
+    end.
+Proof.
+  induction t as [lk lv m|nk h s m l IHl r IHr]; intros res val; cbn [v2_remove leaf_ver].
+  - destruct (beq k lk) eqn:B; intros E; injection E as <-; cbn [rm_val rm_self]; [|discriminate].
+    intros _. btests. subst lk. exists [], lv, m, []. cbn [leaves]. auto.
+  - destruct (blt k nk).
+    + destruct (v2_remove wv l k) as [res1|]; [|discriminate].
+      destruct (rm_val res1) as [val1|] eqn:V1;
+        [|intros E; injection E as <-; cbn [rm_val]; discriminate].
+      destruct (IHl res1 val1 eq_refl V1) as (l1 & v0 & m0 & l2 & E1 & E2 & E3).
+      destruct (rm_self res1) as [l'|].
+      * destruct (v2_balance wv (v2_node wv nk l' r)) as [t1|] eqn:Bal; [|discriminate].
+        intros E; injection E as <-; cbn [rm_val rm_self]. intros _.
+        exists l1, v0, m0, (l2 ++ leaves r). cbn [leaves]. rewrite E1, <- app_assoc.
+        split; [reflexivity|]. split; [exact E2|].
+        rewrite (v2_balance_leaves _ _ _ Bal). cbn [v2_node leaves]. rewrite E3, <- app_assoc.
+        reflexivity.
+      * intros E; injection E as <-; cbn [rm_val rm_self]. intros _.
+        destruct E3 as [-> ->]. exists [], v0, m0, (leaves r). cbn [leaves]. rewrite E1.
+        auto.
+    + destruct (v2_remove wv r k) as [res1|]; [|discriminate].
+      destruct (rm_val res1) as [val1|] eqn:V1;
+        [|intros E; injection E as <-; cbn [rm_val]; discriminate].
+      destruct (IHr res1 val1 eq_refl V1) as (l1 & v0 & m0 & l2 & E1 & E2 & E3).
+      destruct (rm_self res1) as [r'|].
+      * cbv zeta. destruct (v2_balance wv (v2_node wv _ l r')) as [t1|] eqn:Bal; [|discriminate].
+        intros E; injection E as <-; cbn [rm_val rm_self]. intros _.
+        exists (leaves l ++ l1), v0, m0, l2. cbn [leaves]. rewrite E1, <- app_assoc.
+        split; [reflexivity|]. split; [exact E2|].
+        rewrite (v2_balance_leaves _ _ _ Bal). cbn [v2_node leaves]. rewrite E3, <- app_assoc.
+        reflexivity.
+      * intros E; injection E as <-; cbn [rm_val rm_self]. intros _.
+        destruct E3 as [-> ->]. exists (leaves l), v0, m0, []. cbn [leaves]. rewrite E1, app_nil_r.
+        auto.
+Qed.
+
+(** the changelog rows read off the leaves *)
+Definition row_of (wv : Z) (x : bytes * bytes * meta) : list (Z * logop) :=
+  let '(k, v, m) := x in if ver m =? wv then [(nonce m, LSet k v)] else [].
+Definition rows_of (wv : Z) (ls : list (bytes * bytes * meta)) : list (Z * logop) :=
+  flat_map (row_of wv) ls.
+
+Lemma leaf_rows_leaves wv t : leaf_rows wv t = rows_of wv (leaves t).
+Proof.
+  induction t as [k v m|k h s m l IHl r IHr]; cbn [leaf_rows leaves].
+  - unfold rows_of. cbn [flat_map row_of]. rewrite app_nil_r. reflexivity.
+  - unfold rows_of in *. rewrite flat_map_app, IHl, IHr. reflexivity.
+Qed.
+
+Lemma rows_of_app wv a b : rows_of wv (a ++ b) = rows_of wv a ++ rows_of wv b.
+Proof. apply flat_map_app. Qed.
+
+(** ** Sorting rows by sequence *)
+Fixpoint rsorted (l : list (Z * logop)) : Prop :=
+  match l with
+  | [] => True
+  | x :: r => Forall (fun y => fst x < fst y) r /\ rsorted r
+  end.
+Fixpoint wsorted (l : list (Z * logop)) : Prop :=
+  match l with
+  | [] => True
+  | x :: r => Forall (fun y => fst x <= fst y) r /\ wsorted r
+  end.
+
+Lemma ins_row_perm x l : Permutation (ins_row x l) (x :: l).
+Proof.
+  induction l as [|y l IH]; cbn [ins_row]; [reflexivity|].
+  destruct (fst x <=? fst y); [reflexivity|].
+  rewrite IH. apply perm_swap.
+Qed.
+
+Lemma sort_rows_perm l : Permutation (sort_rows l) l.
+Proof.
+  induction l as [|x l IH]; cbn [sort_rows fold_right]; [reflexivity|].
+  fold (sort_rows l). rewrite ins_row_perm, IH. reflexivity.
+Qed.
+
+Lemma ins_row_wsorted x l : wsorted l -> wsorted (ins_row x l).
+Proof.
+  induction l as [|y l IH]; cbn [ins_row wsorted]; [auto|]. intros [F S].
+  destruct (fst x <=? fst y) eqn:C.
+  - apply Z.leb_le in C. cbn [wsorted]. split; [|auto]. constructor; [exact C|].
+    eapply Forall_impl; [|exact F]. cbn. intros; lia.
+  - apply Z.leb_gt in C. cbn [wsorted]. split; [|auto].
+    eapply Permutation_Forall; [symmetry; apply ins_row_perm|]. constructor; [lia|exact F].
+Qed.
+
+Lemma sort_rows_wsorted l : wsorted (sort_rows l).
+Proof.
+  induction l as [|x l IH]; cbn [sort_rows fold_right]; [exact I|]. apply ins_row_wsorted, IH.
+Qed.
+
+Lemma sorted_perm_eq a : forall b, wsorted a -> rsorted b -> Permutation a b -> a = b.
+Proof.
+  induction a as [|x a IH]; intros b Wa Rb P.
+  - apply Permutation_nil in P. auto.
+  - destruct b as [|y b]; [symmetry in P; apply Permutation_nil in P; discriminate|].
+    cbn [wsorted rsorted] in Wa, Rb. destruct Wa as [Fa Wa]. destruct Rb as [Fb Rb].
+    assert (x = y).
+    { assert (Ix : In x (y :: b)) by (eapply Permutation_in; [exact P|left; reflexivity]).
+      assert (Iy : In y (x :: a))
+        by (eapply Permutation_in; [symmetry; exact P|left; reflexivity]).
+      destruct Ix as [->|Ix]; [reflexivity|]. destruct Iy as [->|Iy]; [reflexivity|].
+      rewrite Forall_forall in Fa, Fb. specialize (Fa _ Iy). specialize (Fb _ Ix). lia. }
+    subst y. f_equal. apply IH; auto. eapply Permutation_cons_inv, P.
+Qed.
+
+Lemma sort_rows_unique l l' : Permutation l l' -> rsorted l' -> sort_rows l = l'.
+Proof.
+  intros P R. apply sorted_perm_eq; [apply sort_rows_wsorted|exact R|].
+  rewrite sort_rows_perm. exact P.
+Qed.
+
+(** ** The abstract content and normal-form histories *)
+Definition op_key (o : logop) : bytes := match o with LSet k _ => k | LDel k => k end.
+
+Definition apply_kv (m : kvs) (o : logop) : kvs :=
+  match o with LSet k v => ins k v m | LDel k => del k m end.
+Definition apply_kvs (m : kvs) (ops : list logop) : kvs := fold_left apply_kv ops m.
+
+(** a version in normal form: every key touched at most once, removals only of keys that are
+    present when the version starts *)
+Definition nf_version (m : kvs) (ops : list logop) : Prop :=
+  NoDup (map op_key ops) /\ forall k, In (LDel k) ops -> mem k m = true.
+
+Fixpoint nf_history (m : kvs) (hist : list (list logop * bool)) : Prop :=
+  match hist with
+  | [] => True
+  | e :: rest => nf_version m (fst e) /\ nf_history (apply_kvs m (fst e)) rest
+  end.
+
+Lemma assoc_ins' k k' v (l : kvs) : assoc k (ins k' v l) = if beq k k' then Some v else assoc k l.
+Proof.
+  induction l as [|[k2 v2] l IH]; cbn [ins assoc]; [reflexivity|].
+  bcases k' k2; cbn [assoc].
+  - subst k2. destruct (beq k k'); reflexivity.
+  - reflexivity.
+  - rewrite IH. destruct (beq k k2) eqn:B1; [|reflexivity]. btests. subst k2.
+    replace (beq k k') with false; [reflexivity|]. symmetry. apply beq_false. intro; subst; border.
+Qed.
+
+Lemma assoc_del_ne' k k' (l : kvs) : k <> k' -> assoc k (del k' l) = assoc k l.
+Proof.
+  intros NE. induction l as [|[k2 v2] l IH]; cbn [del assoc]; [reflexivity|].
+  bcases k' k2; cbn [assoc].
+  - subst k2. replace (beq k k') with false; [reflexivity|]. symmetry. apply beq_false, NE.
+  - reflexivity.
+  - rewrite IH. reflexivity.
+Qed.
+
+Lemma mem_apply_other k ops : forall m, ~ In k (map op_key ops) -> mem k (apply_kvs m ops) = mem k m.
+Proof.
+  induction ops as [|o ops IH]; intros m NI; [reflexivity|].
+  cbn [apply_kvs fold_left]. fold (apply_kvs (apply_kv m o) ops).
+  cbn [map In] in NI. rewrite IH by tauto.
+  unfold mem. destruct o as [k' v'|k']; cbn [apply_kv op_key] in *.
+  - rewrite assoc_ins'. replace (beq k k') with false; [reflexivity|].
+    symmetry. apply beq_false. intro; subst; tauto.
+  - rewrite assoc_del_ne'; [reflexivity|]. intro; subst; tauto.
+Qed.
+
+(** ** One version: the run, its changelog, and the replay of that changelog *)
+Definition good (H : bytes -> bytes) (r : option node) : Prop := oinv r /\ opersisted r /\ ohok H r.
+
+Definition del_rows (d : list (Z * bytes)) : list (Z * logop) :=
+  map (fun p => (fst p, LDel (snd p))) d.
+
+Fixpoint numbered (i : Z) (ops : list logop) : list (Z * logop) :=
+  match ops with
+  | [] => []
+  | o :: r => (i, o) :: numbered (i + 1) r
+  end.
+
+Lemma numbered_app i a b :
+  numbered i (a ++ b) = numbered i a ++ numbered (i + Z.of_nat (length a)) b.
+Proof.
+  revert i. induction a as [|o a IH]; intros i; cbn [app numbered length].
+  - rewrite Z.add_0_r. reflexivity.
+  - rewrite IH. do 3 f_equal. lia.
+Qed.
+
+Lemma numbered_In i ops j o : In (j, o) (numbered i ops) -> In o ops /\ i <= j.
+Proof.
+  revert i. induction ops as [|o' ops IH]; intros i; cbn [numbered In]; [tauto|].
+  intros [E|I]; [injection E as -> ->; split; [auto|lia]|].
+  destruct (IH _ I). split; [auto|lia].
+Qed.
+
+Lemma numbered_rsorted i ops : rsorted (numbered i ops).
+Proof.
+  revert i. induction ops as [|o ops IH]; intros i; cbn [numbered rsorted]; [exact I|].
+  split; [|apply IH]. apply Forall_forall. intros [j o'] Hj. apply numbered_In in Hj. cbn. lia.
+Qed.
+
+Lemma last_opt_snoc {A} (l : list A) x : last_opt (l ++ [x]) = Some x.
+Proof.
+  induction l as [|y l IH]; [reflexivity|]. cbn [app last_opt].
+  destruct (l ++ [x]) eqn:E; [destruct l; discriminate|]. exact IH.
+Qed.
+
+Lemma perm_insert {A} (a b d n : list A) x :
+  Permutation (a ++ b ++ d) n -> Permutation ((a ++ x :: b) ++ d) (n ++ [x]).
+Proof.
+  intros P. rewrite <- app_assoc. cbn [app].
+  etransitivity; [symmetry; apply Permutation_middle|].
+  etransitivity; [apply perm_skip, P|]. apply Permutation_cons_append.
+Qed.
+
+Lemma veq0_leaf_ver k t1 : forall t2, veq 0 t1 t2 -> leaf_ver t1 k = leaf_ver t2 k.
+Proof.
+  assert (EV : forall m, eff_ver 0 m = ver m).
+  { intros m. unfold eff_ver. destruct (ver m =? 0) eqn:E; [apply Z.eqb_eq in E; auto|auto]. }
+  induction t1 as [lk lv m|nk h s m l IHl r IHr]; intros [lk2 lv2 m2|nk2 h2 s2 m2 l2 r2];
+    cbn [veq]; try tauto.
+  - intros (A & B & C). subst. cbn [leaf_ver]. rewrite !EV in C. rewrite C. reflexivity.
+  - intros (A & B & C & D & E & F). subst. cbn [leaf_ver]. rewrite (IHl _ E), (IHr _ F). reflexivity.
+Qed.
+
+Lemma leaves_deep_hash_ver H b t :
+  Forall (fun x => ver (snd x) <= b) (leaves (v2_deep_hash H t)) <->
+  Forall (fun x => ver (snd x) <= b) (leaves t).
+Proof.
+  induction t as [k v m|k h s m l IHl r IHr]; cbn [v2_deep_hash].
+  - destruct (hs m); cbn [leaves]; [|reflexivity].
+    split; intros F; inversion F; subst; constructor; auto.
+  - destruct (hs m); cbn [leaves]; [|reflexivity]. rewrite !Forall_app, IHl, IHr. reflexivity.
+Qed.
+
+Section Version.
+  Variable H : bytes -> bytes.
+  Variable a : Z.                 (* the version the working tree is based on *)
+  Hypothesis a_nonneg : 0 <= a.
+  Variable m0 : kvs.              (* its content *)
+
+  Let wv := a + 1.
+
+  Record vinv (done : list logop) (s : v2tree) : Prop := VInv {
+    vi_ver : vt_version s = a;
+    vi_seq : vt_lseq s = Z.of_nat (length done);
+    vi_good : good H (vt_root s);
+    vi_elems : oelems (vt_root s) = apply_kvs m0 done;
+    vi_below : Forall (fun x => ver (snd x) <= wv) (oleaves (vt_root s));
+    vi_rows : Permutation (rows_of wv (oleaves (vt_root s)) ++ del_rows (vt_dels s))
+                          (numbered 1 done)
+  }.
+
+  (** a leaf stamped in this version belongs to a key written in this version *)
+  Lemma vinv_fresh done s k v0 m' :
+    vinv done s -> In (k, v0, m') (oleaves (vt_root s)) -> ver m' = wv -> In k (map op_key done).
+  Proof.
+    intros V I E. pose proof (vi_rows _ _ V) as P.
+    assert (I2 : In (nonce m', LSet k v0) (rows_of wv (oleaves (vt_root s)) ++ del_rows (vt_dels s))).
+    { apply in_or_app. left. unfold rows_of. apply in_flat_map. exists (k, v0, m'). split; [exact I|].
+      cbn [row_of]. rewrite E, Z.eqb_refl. left. reflexivity. }
+    eapply Permutation_in in I2; [|exact P]. apply numbered_In in I2. destruct I2 as [I2 _].
+    apply in_map_iff. exists (LSet k v0). auto.
+  Qed.
+
+  (** the replaying tree against the running tree *)
+  Definition rel (s' s : v2tree) : Prop :=
+    vt_version s' = vt_version s /\ vt_lseq s' = vt_lseq s /\ vt_dels s' = vt_dels s /\
+    oveq 0 (vt_root s') (vt_root s) /\ good H (vt_root s').
+
+  Lemma run_set done s k v :
+    vinv done s -> ~ In k (map op_key done) ->
+    exists s1 u, v2t_set s k v = Some (s1, u) /\ vinv (done ++ [LSet k v]) s1 /\
+                 vt_lseq s1 = vt_lseq s + 1 /\ vt_dels s1 = vt_dels s.
+  Proof.
+    intros V NI. pose proof V as V0. destruct V as [Ev Es (Gi & Gp & Gh) Ee Eb Er].
+    unfold v2t_set. rewrite Ev. fold wv.
+    destruct (vt_root s) as [n|] eqn:R; cbn [v2_root_set].
+    - cbn [oinv opersisted ohok oelems oleaves] in *. destruct Gi as [W A].
+      destruct (v2_set_defined wv (vt_lseq s + 1) k v n W) as ([n1 u] & E). rewrite E.
+      pose proof (v2_set_veq wv (vt_lseq s + 1) k v n n (veq_refl _ _)) as Rl. rewrite E in Rl.
+      destruct Rl as [Rv _]. cbn [fst] in Rv.
+      destruct (set_spec n k v W) as (W1 & E1 & _). destruct (set_avl n k v W A) as (A1 & _).
+      destruct (v2_set_leaves _ _ _ _ _ _ _ E) as (l1 & l2 & L1 & L2).
+      assert (LB : leaves n = l1 ++ l2 \/
+                   exists v0 m', leaves n = l1 ++ (k, v0, m') :: l2 /\ ver m' <> wv).
+      { destruct u; [|auto]. right. destruct L2 as (v0 & m' & L2). exists v0, m'. split; [exact L2|].
+        intros Evr. apply NI. eapply (vinv_fresh done s k v0 m' V0); [|exact Evr].
+        rewrite R. cbn [oleaves]. rewrite L2. apply in_or_app. right. left. reflexivity. }
+      assert (RO : rows_of wv (leaves n) = rows_of wv l1 ++ rows_of wv l2).
+      { destruct LB as [->|(v0 & m' & -> & Nv)]; rewrite rows_of_app; [reflexivity|].
+        f_equal. unfold rows_of. cbn [flat_map row_of]. apply Z.eqb_neq in Nv. rewrite Nv.
+        reflexivity. }
+      assert (SUB : forall x, In x (l1 ++ l2) -> In x (leaves n)).
+      { intros x Ix. destruct LB as [->|(v0 & m' & -> & _)]; [exact Ix|].
+        apply in_app_or in Ix. apply in_or_app. destruct Ix; [left|right; right]; assumption. }
+      eexists _, _. split; [reflexivity|]. cbn [vt_lseq vt_dels]. split; [|auto].
+      constructor; cbn [vt_root vt_version vt_lseq vt_dels oinv opersisted ohok oelems oleaves].
+      + first [exact Ev|reflexivity].
+      + rewrite app_length, Nat2Z.inj_add, Es. reflexivity.
+      + split; [|split].
+        * split; [eapply veq_wf; [apply veq_sym, Rv|exact W1]
+                 |eapply veq_avl; [apply veq_sym, Rv|exact A1]].
+        * eapply v2_set_persisted; [|exact Gp|exact E]. unfold wv. lia.
+        * eapply v2_set_hok; eauto.
+      + rewrite (veq_elems _ _ _ Rv), E1, Ee. unfold apply_kvs. rewrite fold_left_app. reflexivity.
+      + rewrite L1. apply Forall_app. rewrite Forall_forall in Eb. split.
+        * apply Forall_forall. intros x Ix. apply Eb, SUB, in_or_app. auto.
+        * constructor; [cbn; lia|]. apply Forall_forall. intros x Ix. apply Eb, SUB, in_or_app. auto.
+      + rewrite numbered_app. cbn [numbered]. rewrite L1, rows_of_app.
+        replace (rows_of wv ((k, v, v2_meta wv (vt_lseq s + 1)) :: l2))
+          with ((vt_lseq s + 1, LSet k v) :: rows_of wv l2).
+        2:{ unfold rows_of. cbn [flat_map row_of v2_meta ver nonce]. rewrite Z.eqb_refl. reflexivity. }
+        rewrite Es. replace (Z.of_nat (length done) + 1) with (1 + Z.of_nat (length done)) by lia.
+        apply perm_insert. rewrite app_assoc, <- RO. exact Er.
+    - cbn [oelems oleaves] in *.
+      eexists _, _. split; [reflexivity|]. cbn [vt_lseq vt_dels]. split; [|auto].
+      constructor; cbn [vt_root vt_version vt_lseq vt_dels oinv opersisted ohok oelems oleaves leaves elems].
+      + first [exact Ev|reflexivity].
+      + rewrite app_length, Nat2Z.inj_add, Es. reflexivity.
+      + split; [|split]; cbn [oinv wf avl opersisted all_persisted ohok v2_hok v2_meta ver nmeta hs]; auto.
+        unfold wv. lia.
+      + unfold apply_kvs. rewrite fold_left_app. cbn [fold_left apply_kv]. fold (apply_kvs m0 done).
+        rewrite <- Ee. reflexivity.
+      + constructor; [cbn; lia|constructor].
+      + rewrite numbered_app. cbn [numbered]. unfold rows_of. cbn [flat_map row_of v2_meta ver nonce app].
+        rewrite Z.eqb_refl. cbn [app]. rewrite Es.
+        replace (Z.of_nat (length done) + 1) with (1 + Z.of_nat (length done)) by lia.
+        cbn [rows_of flat_map app] in Er.
+        etransitivity; [apply perm_skip, Er|]. apply Permutation_cons_append.
+  Qed.
+
+  Lemma run_del done s k :
+    vinv done s -> ~ In k (map op_key done) -> mem k m0 = true ->
+    exists s1 val, v2t_remove s k = Some (s1, Some val) /\ vinv (done ++ [LDel k]) s1 /\
+                   vt_lseq s1 = vt_lseq s + 1 /\ vt_dels s1 = vt_dels s ++ [(vt_lseq s + 1, k)].
+  Proof.
+    intros V NI Mk. pose proof V as V0. destruct V as [Ev Es (Gi & Gp & Gh) Ee Eb Er].
+    assert (Mk' : mem k (oelems (vt_root s)) = true) by (rewrite Ee, mem_apply_other; assumption).
+    unfold v2t_remove. rewrite Ev. fold wv.
+    destruct (vt_root s) as [n|] eqn:R; [|discriminate Mk'].
+    cbn [oinv opersisted ohok oelems oleaves] in *. destruct Gi as [W A].
+    destruct (v2_remove_defined wv k n W A) as (res & E). rewrite E.
+    pose proof (v2_remove_veq wv k n n (veq_refl _ _)) as Rl. rewrite E in Rl.
+    destruct Rl as (Rv & _ & Rs).
+    pose proof (remove_spec n k W A) as Post. unfold rm_post in Post. rewrite <- Rv in Post.
+    destruct (rm_val res) as [val|] eqn:Vl.
+    2:{ unfold mem in Mk'. rewrite Post in Mk'. discriminate. }
+    destruct Post as (_ & Post).
+    destruct (v2_remove_leaves _ _ _ _ _ E Vl) as (l1 & v0 & m' & l2 & L1 & L2 & L3).
+    assert (Nv : ver m' <> wv).
+    { intros Evr. apply NI. eapply (vinv_fresh done s k v0 m' V0); [|exact Evr].
+      rewrite R. cbn [oleaves]. rewrite L1. apply in_or_app. right. left. reflexivity. }
+    rewrite L2. apply Z.eqb_neq in Nv. rewrite Nv.
+    eexists _, _. split; [reflexivity|]. cbn [vt_lseq vt_dels]. split; [|auto].
+    assert (RO : rows_of wv (leaves n) = rows_of wv (l1 ++ l2)).
+    { rewrite L1, !rows_of_app. f_equal. unfold rows_of. cbn [flat_map row_of]. rewrite Nv. reflexivity. }
+    assert (NL : oleaves (rm_self res) = l1 ++ l2).
+    { destruct (rm_self res); cbn [oleaves]; [exact L3|]. destruct L3 as [-> ->]. reflexivity. }
+    constructor; cbn [vt_root vt_version vt_lseq vt_dels].
+    - first [exact Ev|reflexivity].
+    - rewrite app_length, Nat2Z.inj_add, Es. reflexivity.
+    - destruct (rm_self res) as [t'|] eqn:S1, (rm_self (remove n k)) as [t1|] eqn:S2; try contradiction.
+      + destruct Post as (W1 & A1 & _). split; [|split]; cbn [oinv opersisted ohok].
+        * split; [eapply veq_wf; [apply veq_sym, Rs|exact W1]
+                 |eapply veq_avl; [apply veq_sym, Rs|exact A1]].
+        * eapply v2_remove_persisted; [|exact Gp|exact E|exact S1]. unfold wv. lia.
+        * eapply v2_remove_hok; [exact Gh|exact E|exact S1].
+      + split; [|split]; exact I.
+    - unfold apply_kvs. rewrite fold_left_app. cbn [fold_left apply_kv]. fold (apply_kvs m0 done).
+      rewrite <- Ee.
+      destruct (rm_self res) as [t'|] eqn:S1, (rm_self (remove n k)) as [t1|] eqn:S2; try contradiction;
+        cbn [oelems].
+      + destruct Post as (_ & _ & E1 & _). rewrite (veq_elems _ _ _ Rs). exact E1.
+      + destruct Post as ((mm & ->) & _). cbn [elems del]. rewrite bcmp_refl. reflexivity.
+    - rewrite NL. rewrite Forall_forall in Eb. apply Forall_forall. intros x Ix. apply Eb.
+      rewrite L1. apply in_app_or in Ix. apply in_or_app. destruct Ix; [left|right; right]; assumption.
+    - rewrite NL, <- RO. unfold del_rows. rewrite map_app. cbn [map fst snd].
+      rewrite numbered_app. cbn [numbered]. rewrite app_assoc, Es.
+      replace (Z.of_nat (length done) + 1) with (1 + Z.of_nat (length done)) by lia.
+      apply Permutation_app_tail. exact Er.
+  Qed.
+
+  (** replaying a row on a related tree *)
+  Lemma replay_set s' s k v s1 u :
+    rel s' s -> vt_version s = a -> good H (vt_root s) ->
+    v2t_set s k v = Some (s1, u) -> good H (vt_root s1) ->
+    exists s1', replay_row s' (vt_lseq s + 1, LSet k v) = Some s1' /\ rel s1' s1.
+  Proof.
+    intros (Rv & Rq & Rd & Rr & (Gi' & Gp' & Gh')) Ev (Gi & Gp & Gh) E (Gi1 & Gp1 & Gh1).
+    unfold replay_row. cbn [snd fst]. unfold v2t_set in *. rewrite Rv, Rq, Ev in *. fold wv in E |- *.
+    destruct (vt_root s') as [n'|] eqn:R', (vt_root s) as [n|] eqn:R; cbn [oveq] in Rr; try contradiction;
+      cbn [v2_root_set] in *.
+    - cbn [oinv opersisted ohok] in *. destruct Gi' as [W' A'].
+      destruct (v2_set_defined wv (vt_lseq s + 1) k v n' W') as ([n1' u'] & E'). rewrite E'.
+      destruct (v2_set wv (vt_lseq s + 1) n k v) as [[n1 u1]|] eqn:E1; [|discriminate].
+      injection E as <- <-. cbn [vt_lseq vt_root oinv opersisted ohok] in *.
+      rewrite Z.eqb_refl. eexists. split; [reflexivity|].
+      assert (Rw : veq wv n' n) by (apply (veq_persisted_any 0); assumption).
+      pose proof (v2_set_veq wv (vt_lseq s + 1) k v n' n Rw) as X1. rewrite E' in X1.
+      pose proof (v2_set_veq wv (vt_lseq s + 1) k v n n (veq_refl _ _)) as X2. rewrite E1 in X2.
+      destruct X1 as [X1 _]. destruct X2 as [X2 _]. cbn [fst] in X1, X2.
+      assert (Rn : veq wv n1' n1) by (eapply veq_trans; [exact X1|apply veq_sym, X2]).
+      assert (P1' : all_persisted n1').
+      { eapply v2_set_persisted; [|exact Gp'|exact E']. unfold wv. lia. }
+      assert (Q1 : veq 0 n1' n1) by (apply (veq_persisted_any wv); assumption).
+      assert (Q2 : wf n1') by (eapply v2_set_wf; [exact W'|exact E']).
+      assert (Q3 : avl n1') by (destruct Gi1 as [_ A1]; eapply veq_avl; [apply veq_sym, Rn|exact A1]).
+      assert (Q4 : v2_hok H n1') by (eapply v2_set_hok; [exact Gh'|exact E']).
+      unfold rel, good. cbn [vt_version vt_lseq vt_dels vt_root oveq oinv opersisted ohok].
+      repeat split; assumption.
+    - injection E as <- <-. cbn [vt_lseq]. rewrite Z.eqb_refl. eexists. split; [reflexivity|].
+      unfold rel. cbn [vt_version vt_lseq vt_dels vt_root oveq veq]. repeat split; auto.
+  Qed.
+
+  Lemma replay_del s' s k s1 val :
+    rel s' s -> vt_version s = a -> good H (vt_root s) ->
+    v2t_remove s k = Some (s1, val) -> vt_lseq s1 = vt_lseq s + 1 -> good H (vt_root s1) ->
+    exists s1', replay_row s' (vt_lseq s + 1, LDel k) = Some s1' /\ rel s1' s1.
+  Proof.
+    intros (Rv & Rq & Rd & Rr & (Gi' & Gp' & Gh')) Ev (Gi & Gp & Gh) E Eq (Gi1 & Gp1 & Gh1).
+    unfold replay_row. cbn [snd fst]. unfold v2t_remove in *. rewrite Rv, Rq, Rd, Ev in *. fold wv in E |- *.
+    destruct (vt_root s') as [n'|] eqn:R', (vt_root s) as [n|] eqn:R; cbn [oveq] in Rr; try contradiction.
+    2:{ injection E as <- <-. lia. }
+    cbn [oinv opersisted ohok] in *. destruct Gi' as [W' A'].
+    destruct (v2_remove_defined wv k n' W' A') as (res' & E'). rewrite E'.
+    destruct (v2_remove wv n k) as [res|] eqn:E1; [|discriminate].
+    assert (Rw : veq wv n' n) by (apply (veq_persisted_any 0); assumption).
+    pose proof (v2_remove_veq wv k n' n Rw) as X1. rewrite E' in X1.
+    pose proof (v2_remove_veq wv k n n (veq_refl _ _)) as X2. rewrite E1 in X2.
+    destruct X1 as (V1 & _ & S1). destruct X2 as (V2 & _ & S2).
+    rewrite V1, <- V2. rewrite (veq0_leaf_ver k n' n Rr).
+    destruct (rm_val res) as [vl|] eqn:Vl; [|injection E as <- <-; lia].
+    destruct (match leaf_ver n k with Some lv => lv =? wv | None => false end);
+      [injection E as <- <-; cbn [vt_lseq] in Eq; lia|].
+    injection E as <- <-. cbn [vt_dels vt_root vt_lseq oinv opersisted ohok] in *.
+    rewrite last_opt_snoc. cbn [fst]. rewrite Z.eqb_refl. eexists. split; [reflexivity|].
+    unfold rel. cbn [vt_version vt_lseq vt_dels vt_root]. repeat split; auto.
+    - destruct (rm_self res') as [t'|] eqn:T', (rm_self res) as [t1|] eqn:T1,
+               (rm_self (remove n k)) as [t0|]; cbn [oveq]; try contradiction; auto.
+      cbn [opersisted] in Gp1.
+      apply (veq_persisted_any wv); [| |eapply veq_trans; [exact S1|apply veq_sym, S2]]; [|assumption].
+      eapply v2_remove_persisted; [|exact Gp'|exact E'|exact T']. unfold wv. lia.
+    - destruct (rm_self res') as [t'|] eqn:T'; cbn [oinv]; [|exact I].
+      eapply v2_remove_self_wf; eauto.
+    - destruct (rm_self res') as [t'|] eqn:T'; cbn [opersisted]; [|exact I].
+      eapply v2_remove_persisted; [|exact Gp'|exact E'|exact T']. unfold wv. lia.
+    - destruct (rm_self res') as [t'|] eqn:T'; cbn [ohok]; [|exact I].
+      eapply v2_remove_hok; [exact Gh'|exact E'|exact T'].
+  Qed.
+
+  (** running the operations of a version in normal form, and replaying the numbered rows *)
+  Lemma version_run ops : forall done s s',
+    vinv done s -> rel s' s ->
+    NoDup (map op_key (done ++ ops)) -> (forall k, In (LDel k) ops -> mem k m0 = true) ->
+    exists sp sp',
+      v2_apply_all s ops = Some sp /\ vinv (done ++ ops) sp /\
+      replay_rows s' (numbered (Z.of_nat (length done) + 1) ops) = Some sp' /\ rel sp' sp.
+  Proof.
+    induction ops as [|o ops IH]; intros done s s' V Rl ND Pr.
+    - exists s, s'. rewrite app_nil_r. cbn [v2_apply_all numbered replay_rows]. auto.
+    - assert (NI : ~ In (op_key o) (map op_key done)).
+      { rewrite map_app in ND. cbn [map] in ND. apply NoDup_remove_2 in ND.
+        intros C. apply ND. apply in_or_app. auto. }
+      assert (ND' : NoDup (map op_key ((done ++ [o]) ++ ops))) by (rewrite <- app_assoc; exact ND).
+      assert (Pr' : forall k, In (LDel k) ops -> mem k m0 = true) by (intros k0 I0; apply Pr; right; exact I0).
+      cbn [v2_apply_all numbered replay_rows].
+      assert (Sq : Z.of_nat (length done) + 1 = vt_lseq s + 1) by (rewrite (vi_seq _ _ V); reflexivity).
+      rewrite Sq.
+      assert (Sq' : vt_lseq s + 1 + 1 = Z.of_nat (length (done ++ [o])) + 1).
+      { rewrite app_length, Nat2Z.inj_add, (vi_seq _ _ V). cbn [length]. lia. }
+      rewrite Sq'.
+      destruct o as [k v|k]; cbn [op_key] in NI.
+      + destruct (run_set done s k v V NI) as (s1 & u & E & V1 & Q1 & D1).
+        cbn [v2_apply]. rewrite E.
+        destruct (replay_set s' s k v s1 u Rl (vi_ver _ _ V) (vi_good _ _ V) E (vi_good _ _ V1))
+          as (s1' & E' & Rl1).
+        rewrite E'.
+        destruct (IH (done ++ [LSet k v]) s1 s1' V1 Rl1 ND' Pr') as (sp & sp' & A1 & A2 & A3 & A4).
+        exists sp, sp'. rewrite <- app_assoc in A2. cbn [app] in A2. auto.
+      + assert (Mk : mem k m0 = true) by (apply Pr; left; reflexivity).
+        destruct (run_del done s k V NI Mk) as (s1 & val & E & V1 & Q1 & D1).
+        cbn [v2_apply]. rewrite E.
+        destruct (replay_del s' s k s1 (Some val) Rl (vi_ver _ _ V) (vi_good _ _ V) E Q1 (vi_good _ _ V1))
+          as (s1' & E' & Rl1).
+        rewrite E'.
+        destruct (IH (done ++ [LDel k]) s1 s1' V1 Rl1 ND' Pr') as (sp & sp' & A1 & A2 & A3 & A4).
+        exists sp, sp'. rewrite <- app_assoc in A2. cbn [app] in A2. auto.
+  Qed.
+
+  (** The version as a whole.  From a saved state [V2Tree R a 0 []] whose leaves all carry
+      versions <= a: the operations succeed, the changelog SaveVersion writes is the list of
+      operations numbered from 1, and replaying it (replayChangelog's per-version step) from
+      any tree related to [R] succeeds and ends in a tree related to the result. *)
+  Theorem version_replay R ops :
+    good H R -> oelems R = m0 -> Forall (fun x => ver (snd x) <= a) (oleaves R) ->
+    nf_version m0 ops ->
+    exists sp,
+      v2_apply_all (V2Tree R a 0 []) ops = Some sp /\
+      vt_version sp = a /\ good H (vt_root sp) /\
+      oelems (vt_root sp) = apply_kvs m0 ops /\
+      Forall (fun x => ver (snd x) <= a + 1) (oleaves (vt_root sp)) /\
+      v2_changelog sp = numbered 1 ops /\
+      forall s', oveq 0 (vt_root s') R -> good H (vt_root s') ->
+        exists s'', replay_version s' (a + 1, v2_changelog sp) = Some s'' /\
+      oveq 0 (vt_root s'') (vt_root sp) /\ good H (vt_root s'').
+  Proof.
+    intros G Em Below [ND Pr].
+    assert (V0 : vinv [] (V2Tree R a 0 [])).
+    { constructor; cbn [vt_version vt_lseq vt_root vt_dels length]; auto.
+      - eapply Forall_impl; [|exact Below]. cbn. intros. unfold wv. lia.
+      - cbn [del_rows map numbered]. rewrite app_nil_r.
+        replace (rows_of wv (oleaves R)) with (@nil (Z * logop)); [reflexivity|].
+        symmetry. unfold rows_of. induction (oleaves R) as [|[[k v] m] l IHl]; [reflexivity|].
+        inversion Below; subst. cbn [flat_map row_of]. cbn [snd] in *.
+        replace (ver m =? wv) with false by (symmetry; apply Z.eqb_neq; unfold wv; lia).
+        cbn [app]. apply IHl. assumption. }
+    destruct (version_run ops [] (V2Tree R a 0 []) (V2Tree R a 0 []) V0) as (sp & sp0 & A1 & A2 & _ & _).
+    { unfold rel. cbn [vt_version vt_lseq vt_dels vt_root]. repeat split; auto using oveq_refl; apply G. }
+    { exact ND. } { exact Pr. }
+    cbn [app] in A2. exists sp. split; [exact A1|].
+    split; [apply (vi_ver _ _ A2)|]. split; [apply (vi_good _ _ A2)|].
+    split; [apply (vi_elems _ _ A2)|]. split; [apply (vi_below _ _ A2)|].
+    assert (CL : v2_changelog sp = numbered 1 ops).
+    { unfold v2_changelog. rewrite (vi_ver _ _ A2). fold wv.
+      apply sort_rows_unique; [|apply numbered_rsorted].
+      replace (match vt_root sp with Some n => leaf_rows wv n | None => [] end)
+        with (rows_of wv (oleaves (vt_root sp)))
+        by (destruct (vt_root sp); cbn [oleaves]; [symmetry; apply leaf_rows_leaves|reflexivity]).
+      exact (vi_rows _ _ A2). }
+    split; [exact CL|].
+    intros s' Rr G'. rewrite CL. unfold replay_version. cbn [fst snd].
+    destruct (numbered 1 ops) as [|p l] eqn:En.
+    - assert (ops = []) by (destruct ops; [reflexivity|discriminate En]). subst ops.
+      exists s'. split; [reflexivity|]. split; [|exact G'].
+      cbn [v2_apply_all] in A1. injection A1 as <-. exact Rr.
+    - rewrite <- En.
+      destruct (version_run ops [] (V2Tree R a 0 []) (V2Tree (vt_root s') a 0 []) V0)
+        as (sp1 & sp' & B1 & _ & B3 & B4).
+      { unfold rel. cbn [vt_version vt_lseq vt_dels vt_root]. repeat split; auto; apply G'. }
+      { exact ND. } { exact Pr. }
+      rewrite A1 in B1. injection B1 as <-. cbn [length Z.of_nat Z.add] in B3.
+      replace (a + 1 - 1) with a by lia.
+      exists sp'. split; [exact B3|]. destruct B4 as (_ & _ & _ & B4 & B5). auto.
+  Qed.
+End Version.
+
+
+(** ** Item 5: FindPrevious *)
+Fixpoint zsorted (l : list Z) : Prop :=
+  match l with
+  | [] => True
+  | x :: r => Forall (fun y => x < y) r /\ zsorted r
+  end.
+
+(** [c] is the greatest element of [vs] that is <= [v] *)
+Definition is_prev (vs : list Z) (v c : Z) : Prop :=
+  In c vs /\ c <= v /\ forall x, In x vs -> x <= v -> x <= c.
+
+Lemma is_prev_unique vs v c1 c2 : is_prev vs v c1 -> is_prev vs v c2 -> c1 = c2.
+Proof.
+  intros (I1 & L1 & M1) (I2 & L2 & M2). pose proof (M1 _ I2 L2). pose proof (M2 _ I1 L1). lia.
+Qed.
+
+Lemma zsorted_nth l : zsorted l -> forall i j, (i < j < length l)%nat -> nth i l 0 < nth j l 0.
+Proof.
+  induction l as [|x l IH]; intros S i j Hij; cbn [length] in Hij; [lia|].
+  cbn [zsorted] in S. destruct S as [F S].
+  destruct j as [|j]; [lia|]. destruct i as [|i]; cbn [nth].
+  - rewrite Forall_forall in F. apply F, nth_In. lia.
+  - apply IH; [exact S|lia].
+Qed.
+
+Lemma zsorted_nth_le l : zsorted l -> forall i j, (i <= j < length l)%nat -> nth i l 0 <= nth j l 0.
+Proof.
+  intros S i j Hij. destruct (Nat.eq_dec i j) as [->|NE]; [lia|].
+  pose proof (zsorted_nth l S i j ltac:(lia)). lia.
+Qed.
+
+Lemma zindex_nth vs i :
+  0 <= i < Z.of_nat (length vs) -> zindex vs i = Some (nth (Z.to_nat i) vs 0).
+Proof.
+  intros Hi. unfold zindex. replace (i <? 0) with false by (symmetry; apply Z.ltb_ge; lia).
+  apply nth_error_nth'. lia.
+Qed.
+
+Lemma fp_loop_spec fuel : forall vs v low high,
+  zsorted vs -> (0 < length vs)%nat -> nth 0 vs 0 <= v ->
+  0 <= low -> high < Z.of_nat (length vs) -> low <= high + 1 ->
+  (forall i, 0 <= i < low -> nth (Z.to_nat i) vs 0 < v) ->
+  (forall i, high < i < Z.of_nat (length vs) -> v < nth (Z.to_nat i) vs 0) ->
+  (Z.to_nat (high - low + 2) <= fuel)%nat ->
+  exists c, fp_loop fuel vs v low high = FPVal c /\ is_prev vs v c.
+Proof.
+  induction fuel as [|f IH]; intros vs v low high S Ne H0 Hl Hh Hlh Lo Hi Fu; [lia|].
+  cbn [fp_loop]. destruct (low <=? high) eqn:C.
+  - apply Z.leb_le in C.
+    assert (M : low <= (low + high) / 2 <= high)
+      by (split; [apply Z.div_le_lower_bound; lia|apply Z.div_le_upper_bound; lia]).
+    set (mid := (low + high) / 2) in *.
+    rewrite (zindex_nth vs mid) by lia.
+    destruct (nth (Z.to_nat mid) vs 0 =? v) eqn:E1.
+    + apply Z.eqb_eq in E1. exists v. split; [reflexivity|]. split; [|split; [lia|auto]].
+      rewrite <- E1. apply nth_In. lia.
+    + apply Z.eqb_neq in E1. destruct (nth (Z.to_nat mid) vs 0 <? v) eqn:E2.
+      * apply Z.ltb_lt in E2. apply IH; auto; try lia.
+        intros i Hi'. destruct (Z_lt_dec i low); [apply Lo; lia|].
+        pose proof (zsorted_nth_le vs S (Z.to_nat i) (Z.to_nat mid) ltac:(lia)). lia.
+      * apply Z.ltb_ge in E2. apply IH; auto; try lia.
+        intros i Hi'. destruct (Z_lt_dec high i); [apply Hi; lia|].
+        pose proof (zsorted_nth_le vs S (Z.to_nat mid) (Z.to_nat i) ltac:(lia)). lia.
+  - apply Z.leb_gt in C.
+    assert (Hge : 0 <= high).
+    { destruct (Z_lt_dec high 0) as [Neg|]; [|lia].
+      specialize (Hi 0 ltac:(lia)). cbn in Hi. lia. }
+    rewrite (zindex_nth vs high) by lia.
+    eexists. split; [reflexivity|]. split; [apply nth_In; lia|]. split.
+    + specialize (Lo high ltac:(lia)). lia.
+    + intros x Ix Lx. destruct (In_nth vs x 0 Ix) as (i & Hi' & <-).
+      destruct (Z_lt_dec high (Z.of_nat i)) as [G|G].
+      * specialize (Hi (Z.of_nat i) ltac:(lia)). rewrite Nat2Z.id in Hi. lia.
+      * apply (zsorted_nth_le vs S). lia.
+Qed.
+
+Theorem find_previous_spec vs v :
+  zsorted vs ->
+  match vs with
+  | [] => find_previous vs v = FPVal (-1)
+  | v0 :: _ =>
+      if v <? v0 then find_previous vs v = FPVal (-1)
+      else exists c, find_previous vs v = FPVal c /\ is_prev vs v c
+  end.
+Proof.
+  intros S. destruct vs as [|v0 vs']; [reflexivity|]. cbn [find_previous].
+  destruct (v <? v0) eqn:C; [reflexivity|]. apply Z.ltb_ge in C.
+  apply fp_loop_spec; auto; cbn [length nth]; try lia.
+Qed.
+
+Lemma zsorted_app_snoc l x : zsorted l -> Forall (fun y => y < x) l -> zsorted (l ++ [x]).
+Proof.
+  induction l as [|y l IH]; cbn [app zsorted]; [auto|]. intros [F S] Fx. inversion Fx; subst.
+  split; [|auto]. apply Forall_app. split; [exact F|]. constructor; [lia|constructor].
+Qed.
+
+Lemma zsorted_filter f l : zsorted l -> zsorted (filter f l).
+Proof.
+  induction l as [|y l IH]; cbn [filter zsorted]; [auto|]. intros [F S].
+  destruct (f y); [|auto]. cbn [zsorted]. split; [|auto].
+  apply Forall_forall. intros z Hz. apply filter_In in Hz. rewrite Forall_forall in F. apply F, Hz.
+Qed.
+
+Lemma zsorted_hd_le l x : zsorted l -> In x l -> hd 0 l <= x.
+Proof.
+  destruct l as [|y l]; [intros _ []|]. cbn [zsorted hd In]. intros [F _] [->|I]; [lia|].
+  rewrite Forall_forall in F. specialize (F _ I). lia.
+Qed.
+
+(** usable form: a sorted list containing some element <= v *)
+Lemma find_previous_some vs v x :
+  zsorted vs -> In x vs -> x <= v -> exists c, find_previous vs v = FPVal c /\ is_prev vs v c.
+Proof.
+  intros S I L. pose proof (find_previous_spec vs v S) as P.
+  destruct vs as [|v0 vs']; [destruct I|].
+  pose proof (zsorted_hd_le _ _ S I) as Hh. cbn [hd] in Hh.
+  replace (v <? v0) with false in P by (symmetry; apply Z.ltb_ge; lia). exact P.
+Qed.
+
+(** ** Item 4: histories, checkpoints and LoadVersion *)
+Definition odeep (H : bytes -> bytes) (r : option node) : option node :=
+  match r with None => None | Some n => Some (v2_deep_hash H n) end.
+
+Lemma good_odeep H r : good H r -> good H (odeep H r) /\ oveq 0 (odeep H r) r.
+Proof.
+  destruct r as [n|]; cbn [odeep oveq]; [|auto]. intros ((W & A) & P & K).
+  cbn [opersisted ohok] in *. destruct (v2_deep_hash_spec H n K) as (_ & _ & K' & V).
+  split; [|apply V]. split; [|split]; cbn [oinv opersisted ohok].
+  - split; [eapply veq_wf; [apply veq_sym, (V 0)|exact W]
+           |eapply veq_avl; [apply veq_sym, (V 0)|exact A]].
+  - apply v2_deep_hash_persisted, P.
+  - exact K'.
+Qed.
+
+Lemma compute_hash_cong H r1 r2 :
+  good H r1 -> good H r2 -> oveq 0 r1 r2 -> v2_compute_hash H r1 = v2_compute_hash H r2.
+Proof.
+  destruct r1 as [n1|], r2 as [n2|]; cbn [oveq]; try tauto.
+  intros (_ & _ & K1) (_ & _ & K2) E. cbn [ohok v2_compute_hash] in *.
+  destruct (v2_deep_hash_spec H n1 K1) as (-> & _). destruct (v2_deep_hash_spec H n2 K2) as (-> & _).
+  rewrite !v2_hash_pure. apply pure_hash_ext, veq_shape_eq, E.
+Qed.
+
+Lemma good_None H : good H None.
+Proof. repeat split. Qed.
+
+Lemma replay_log_app l1 : forall s0 l2,
+  replay_log s0 (l1 ++ l2) =
+    match replay_log s0 l1 with Some s' => replay_log s' l2 | None => None end.
+Proof.
+  induction l1 as [|e l1 IH]; intros s0 l2; cbn [app replay_log]; [reflexivity|].
+  destruct (replay_version s0 e); [apply IH|reflexivity].
+Qed.
+
+Lemma lookup_app_some {A} v (l1 l2 : list (Z * A)) a :
+  lookup v l1 = Some a -> lookup v (l1 ++ l2) = Some a.
+Proof. intros E. rewrite lookup_app, E. reflexivity. Qed.
+
+Lemma lookup_range_none {A} v n (l : list (Z * A)) :
+  Forall (fun p => fst p <= n) l -> n < v -> lookup v l = None.
+Proof.
+  intros F L. apply lookup_above. eapply Forall_impl; [|exact F]. cbn. intros; lia.
+Qed.
+
+Definition tree_at (trees : list (option node)) (v : Z) : option node :=
+  nth (Z.to_nat (v - 1)) trees None.
+
+Definition in_seg (c v : Z) (e : Z * list (Z * logop)) : bool := (c <? fst e) && (fst e <=? v).
+
+Lemma tree_at_app_old trees t v :
+  1 <= v <= Z.of_nat (length trees) -> tree_at (trees ++ [t]) v = tree_at trees v.
+Proof. intros Hv. unfold tree_at. apply app_nth1. lia. Qed.
+
+Lemma tree_at_app_new trees t :
+  tree_at (trees ++ [t]) (Z.of_nat (length trees) + 1) = t.
+Proof.
+  unfold tree_at. replace (Z.to_nat (Z.of_nat (length trees) + 1 - 1)) with (length trees) by lia.
+  apply nth_middle.
+Qed.
+
+Section History.
+  Variable H : bytes -> bytes.
+  Variable interval : Z.
+
+  Definition replay_ok (db : v2db) (trees : list (option node)) (c v : Z) : Prop :=
+    forall s', oveq 0 (vt_root s') (tree_at trees c) -> good H (vt_root s') ->
+      exists s'', replay_log s' (filter (in_seg c v) (db_log db)) = Some s'' /\
+                  oveq 0 (vt_root s'') (tree_at trees v) /\ good H (vt_root s'').
+
+  Record hinv (n : Z) (trees : list (option node)) (s : v2tree) (db : v2db) : Prop := HInv {
+    hi_len : Z.of_nat (length trees) = n;
+    hi_state : s = V2Tree (if n =? 0 then None else tree_at trees n) n 0 [];
+    hi_good : forall v, 1 <= v <= n -> good H (tree_at trees v);
+    hi_below : Forall (fun x => ver (snd x) <= n) (oleaves (vt_root s));
+    hi_sorted : zsorted (db_ckpts db);
+    hi_range : Forall (fun c => 1 <= c <= n) (db_ckpts db);
+    hi_first : 1 <= n -> In 1 (db_ckpts db);
+    hi_roots : forall c, In c (db_ckpts db) -> lookup c (db_roots db) = Some (tree_at trees c);
+    hi_roots_range : Forall (fun p => fst p <= n) (db_roots db);
+    hi_hashes : forall v, 1 <= v <= n ->
+                  lookup v (db_hashes db) = Some (v2_compute_hash H (tree_at trees v));
+    hi_hashes_range : Forall (fun p => fst p <= n) (db_hashes db);
+    hi_log : Forall (fun e => 1 <= fst e <= n) (db_log db);
+    hi_replay : forall c v, In c (db_ckpts db) -> c <= v <= n -> replay_ok db trees c v
+  }.
+
+  Lemma hinv_empty : hinv 0 [] v2t_empty db_empty.
+  Proof.
+    constructor; cbn; auto; try lia; intros; try lia; try contradiction.
+  Qed.
+
+  Lemma hinv_root_good n trees s db : hinv n trees s db -> good H (vt_root s).
+  Proof.
+    intros I. rewrite (hi_state _ _ _ _ I). cbn [vt_root]. destruct (n =? 0) eqn:E.
+    - apply good_None.
+    - apply Z.eqb_neq in E. apply (hi_good _ _ _ _ I). pose proof (hi_len _ _ _ _ I). lia.
+  Qed.
+
+  (** one version preserves the invariant *)
+  Lemma hinv_step n trees s db ops want :
+    hinv n trees s db -> nf_version (oelems (vt_root s)) ops ->
+    exists s1 db1 t,
+      v2_version H interval (s, db) (ops, want) = Some (s1, db1) /\
+      hinv (n + 1) (trees ++ [t]) s1 db1 /\
+      vt_root s1 = t /\ oelems t = apply_kvs (oelems (vt_root s)) ops.
+  Proof.
+    intros I NF. pose proof (hinv_root_good _ _ _ _ I) as G.
+    pose proof (hi_len _ _ _ _ I) as Hlen.
+    assert (Hn : 0 <= n) by lia.
+    pose proof (hi_state _ _ _ _ I) as St.
+    assert (St' : s = V2Tree (vt_root s) n 0 []) by (rewrite St; reflexivity).
+    set (R := vt_root s) in *.
+    destruct (version_replay H n Hn (oelems R) R ops G eq_refl) as
+      (sp & A1 & A2 & A3 & A4 & A5 & A6 & A7).
+    { exact (hi_below _ _ _ _ I). }
+    { exact NF. }
+    rewrite <- St' in A1.
+    set (R1 := odeep H (vt_root sp)).
+    assert (ER1 : R1 = odeep H (vt_root sp)) by reflexivity.
+    destruct (good_odeep H _ A3) as [G1 V1]. rewrite <- ER1 in G1, V1.
+    set (ck := v2_should_checkpoint interval want (db_ckpts db) (n + 1)).
+    set (DB1 := V2Db (if ck then db_ckpts db ++ [n + 1] else db_ckpts db)
+                     (if ck then db_roots db ++ [(n + 1, R1)] else db_roots db)
+                     (db_hashes db ++ [(n + 1, v2_compute_hash H (vt_root sp))])
+                     (db_log db ++ [(n + 1, v2_changelog sp)])).
+    assert (EV : v2_version H interval (s, db) (ops, want) = Some (V2Tree R1 (n + 1) 0 [], DB1)).
+    { unfold v2_version. cbn [fst snd]. rewrite A1. unfold v2_commit, v2t_save. cbn [fst snd].
+      rewrite A2. reflexivity. }
+    exists (V2Tree R1 (n + 1) 0 []), DB1, R1. split; [exact EV|]. clear EV.
+    assert (TA_old : forall v, 1 <= v <= n -> tree_at (trees ++ [R1]) v = tree_at trees v).
+    { intros v Hv. apply tree_at_app_old. lia. }
+    assert (TA_new : tree_at (trees ++ [R1]) (n + 1) = R1).
+    { rewrite <- Hlen. apply tree_at_app_new. }
+    assert (SEG_old : forall c v, v <= n ->
+              filter (in_seg c v) (db_log db ++ [(n + 1, v2_changelog sp)]) =
+              filter (in_seg c v) (db_log db)).
+    { intros c v Hv. rewrite filter_app. cbn [filter]. unfold in_seg at 2. cbn [fst].
+      replace (n + 1 <=? v) with false by (symmetry; apply Z.leb_gt; lia).
+      rewrite andb_false_r, app_nil_r. reflexivity. }
+    assert (SEG_new : forall c, c <= n ->
+              filter (in_seg c (n + 1)) (db_log db ++ [(n + 1, v2_changelog sp)]) =
+              filter (in_seg c n) (db_log db) ++ [(n + 1, v2_changelog sp)]).
+    { intros c Hc. rewrite filter_app. cbn [filter]. unfold in_seg at 2. cbn [fst].
+      replace (c <? n + 1) with true by (symmetry; apply Z.ltb_lt; lia).
+      rewrite Z.leb_refl. cbn [andb]. f_equal.
+      apply filter_ext_in. intros e He. pose proof (hi_log _ _ _ _ I) as Fl.
+      rewrite Forall_forall in Fl. specialize (Fl _ He). unfold in_seg.
+      replace (fst e <=? n + 1) with true by (symmetry; apply Z.leb_le; lia).
+      replace (fst e <=? n) with true by (symmetry; apply Z.leb_le; lia). reflexivity. }
+    assert (RP_old : forall c v, In c (db_ckpts db) -> c <= v <= n + 1 ->
+              replay_ok DB1 (trees ++ [R1]) c v).
+    { intros c v Ic Hcv. pose proof (hi_range _ _ _ _ I) as Rg. rewrite Forall_forall in Rg.
+      specialize (Rg _ Ic). unfold replay_ok, DB1. cbn [db_log]. intros s' Rs' Gs'.
+      rewrite TA_old in Rs' by lia.
+      destruct (Z_le_gt_dec v n) as [Le|Gt].
+      - rewrite SEG_old by lia. rewrite TA_old by lia.
+        apply (hi_replay _ _ _ _ I c v Ic ltac:(lia) s' Rs' Gs').
+      - assert (v = n + 1) by lia. subst v. rewrite SEG_new by lia. rewrite TA_new.
+        destruct (hi_replay _ _ _ _ I c n Ic ltac:(lia) s' Rs' Gs') as (s2 & E2 & V2 & G2).
+        rewrite replay_log_app, E2. cbn [replay_log].
+        assert (V2' : oveq 0 (vt_root s2) R).
+        { unfold R. rewrite St. cbn [vt_root]. destruct (n =? 0) eqn:En; [lia|exact V2]. }
+        destruct (A7 s2 V2' G2) as (s3 & E3 & V3 & G3). rewrite E3.
+        exists s3. split; [reflexivity|]. split; [|exact G3].
+        eapply oveq_trans; [exact V3|apply oveq_sym, V1]. }
+    split; [|split; [reflexivity|]].
+    constructor; unfold DB1; cbn [db_ckpts db_roots db_hashes db_log vt_root].
+    - rewrite app_length, Nat2Z.inj_add. cbn [length]. lia.
+    - replace (n + 1 =? 0) with false by (symmetry; apply Z.eqb_neq; lia). rewrite TA_new. reflexivity.
+    - intros v Hv. destruct (Z_le_gt_dec v n).
+      + rewrite TA_old by lia. apply (hi_good _ _ _ _ I). lia.
+      + replace v with (n + 1) by lia. rewrite TA_new. exact G1.
+    - rewrite ER1. destruct (vt_root sp) as [n0|]; cbn [odeep oleaves] in *; [|constructor].
+      apply leaves_deep_hash_ver. exact A5.
+    - destruct ck; [|apply (hi_sorted _ _ _ _ I)].
+      apply zsorted_app_snoc; [apply (hi_sorted _ _ _ _ I)|].
+      eapply Forall_impl; [|apply (hi_range _ _ _ _ I)]. cbn. intros; lia.
+    - assert (Fo : Forall (fun c => 1 <= c <= n + 1) (db_ckpts db)).
+      { eapply Forall_impl; [|apply (hi_range _ _ _ _ I)]. cbn. intros; lia. }
+      destruct ck; [|exact Fo]. apply Forall_app. split; [exact Fo|]. constructor; [lia|constructor].
+    - intros _. destruct (Z.eq_dec n 0) as [E0|N0].
+      + unfold ck, v2_should_checkpoint. rewrite E0. cbn [Z.add Z.eqb]. rewrite orb_true_r. cbn [orb].
+        apply in_or_app. right. left. reflexivity.
+      + assert (I1 : In 1 (db_ckpts db)) by (apply (hi_first _ _ _ _ I); lia).
+        destruct ck; [apply in_or_app; left|]; exact I1.
+    - intros c Ic.
+      assert (Old : In c (db_ckpts db) ->
+                lookup c (if ck then db_roots db ++ [(n + 1, R1)] else db_roots db) =
+                Some (tree_at (trees ++ [R1]) c)).
+      { intros Ic'. pose proof (hi_range _ _ _ _ I) as Rg. rewrite Forall_forall in Rg.
+        specialize (Rg _ Ic'). rewrite TA_old by lia.
+        destruct ck; [apply lookup_app_some|]; apply (hi_roots _ _ _ _ I c Ic'). }
+      destruct ck eqn:Eck; [|apply Old, Ic].
+      apply in_app_or in Ic. destruct Ic as [Ic|[<-|[]]]; [apply Old, Ic|].
+      rewrite lookup_snoc, Z.eqb_refl, TA_new; [reflexivity|].
+      apply (lookup_range_none _ n); [apply (hi_roots_range _ _ _ _ I)|lia].
+    - assert (Fo : Forall (fun p : Z * option node => fst p <= n + 1) (db_roots db)).
+      { eapply Forall_impl; [|apply (hi_roots_range _ _ _ _ I)]. cbn. intros; lia. }
+      destruct ck; [|exact Fo]. apply Forall_app. split; [exact Fo|]. constructor; [cbn; lia|constructor].
+    - intros v Hv. destruct (Z_le_gt_dec v n).
+      + rewrite TA_old by lia. apply lookup_app_some, (hi_hashes _ _ _ _ I). lia.
+      + replace v with (n + 1) by lia.
+        rewrite lookup_snoc, Z.eqb_refl, TA_new;
+          [|apply (lookup_range_none _ n); [apply (hi_hashes_range _ _ _ _ I)|lia]].
+        f_equal. apply compute_hash_cong; [exact A3|exact G1|apply oveq_sym, V1].
+    - apply Forall_app. split.
+      + eapply Forall_impl; [|apply (hi_hashes_range _ _ _ _ I)]. cbn. intros; lia.
+      + constructor; [cbn; lia|constructor].
+    - apply Forall_app. split.
+      + eapply Forall_impl; [|apply (hi_log _ _ _ _ I)]. cbn. intros; lia.
+      + constructor; [cbn; lia|constructor].
+    - intros c v Ic Hcv. destruct ck eqn:Eck; [|apply RP_old; assumption].
+      apply in_app_or in Ic. destruct Ic as [Ic|[<-|[]]]; [apply RP_old; assumption|].
+      assert (v = n + 1) by lia. subst v. unfold replay_ok, DB1. cbn [db_log]. intros s' Rs' Gs'.
+      replace (filter (in_seg (n + 1) (n + 1)) (db_log db ++ [(n + 1, v2_changelog sp)]))
+        with (@nil (Z * list (Z * logop))).
+      * exists s'. split; [reflexivity|]. auto.
+      * symmetry. apply filter_nil_Forall. apply Forall_app. split.
+        -- eapply Forall_impl; [|apply (hi_log _ _ _ _ I)]. cbn. intros e He. unfold in_seg.
+           replace (n + 1 <? fst e) with false by (symmetry; apply Z.ltb_ge; lia). reflexivity.
+        -- constructor; [|constructor]. unfold in_seg. cbn [fst]. rewrite Z.ltb_irrefl. reflexivity.
+    - rewrite ER1.
+      destruct (good_odeep H _ A3) as [_ V]. rewrite <- A4.
+      destruct (vt_root sp) as [n0|]; cbn [odeep oelems oveq] in *; [|reflexivity].
+      apply (veq_elems _ _ _ V).
+  Qed.
+
+  Lemma v2_history_app h1 : forall sd h2,
+    v2_history H interval sd (h1 ++ h2) =
+      match v2_history H interval sd h1 with
+      | Some sd' => v2_history H interval sd' h2
+      | None => None
+      end.
+  Proof.
+    induction h1 as [|e h1 IH]; intros sd h2; cbn [app v2_history]; [reflexivity|].
+    destruct (v2_version H interval sd e); [apply IH|reflexivity].
+  Qed.
+
+  Definition content (m : kvs) (hist : list (list logop * bool)) : kvs :=
+    fold_left (fun m e => apply_kvs m (fst e)) hist m.
+
+  Lemma nf_history_app m h1 : forall h2,
+    nf_history m (h1 ++ h2) <-> nf_history m h1 /\ nf_history (content m h1) h2.
+  Proof.
+    revert m. induction h1 as [|e h1 IH]; intros m h2; cbn [app nf_history content fold_left]; [tauto|].
+    fold (content (apply_kvs m (fst e)) h1). rewrite IH. tauto.
+  Qed.
+
+  (** a whole history in normal form preserves the invariant *)
+  Lemma hinv_history hist : forall n trees s db,
+    hinv n trees s db -> nf_history (oelems (vt_root s)) hist ->
+    exists s1 db1 ts,
+      v2_history H interval (s, db) hist = Some (s1, db1) /\
+      hinv (n + Z.of_nat (length hist)) (trees ++ ts) s1 db1 /\
+      oelems (vt_root s1) = content (oelems (vt_root s)) hist.
+  Proof.
+    induction hist as [|[ops want] hist IH]; intros n trees s db I NF.
+    - exists s, db, []. cbn [v2_history length content fold_left]. rewrite app_nil_r, Z.add_0_r. auto.
+    - cbn [nf_history fst] in NF. destruct NF as [NF1 NF2].
+      destruct (hinv_step n trees s db ops want I NF1) as (s1 & db1 & t & E1 & I1 & R1 & C1).
+      cbn [v2_history]. rewrite E1.
+      rewrite <- C1, <- R1 in NF2.
+      destruct (IH (n + 1) (trees ++ [t]) s1 db1 I1 NF2) as (s2 & db2 & ts & E2 & I2 & C2).
+      exists s2, db2, (t :: ts). split; [exact E2|]. split.
+      + rewrite <- app_assoc in I2. cbn [app length] in *.
+        replace (n + Z.of_nat (S (length hist))) with (n + 1 + Z.of_nat (length hist)) by lia. exact I2.
+      + rewrite C2. cbn [content fold_left fst]. rewrite R1, C1. reflexivity.
+  Qed.
+
+  (** LoadVersion on a database satisfying the invariant *)
+  Lemma hinv_load n trees s db v :
+    hinv n trees s db -> 1 <= v <= n ->
+    exists s', v2_load H db v = Some s' /\
+      vt_version s' = v /\ vt_lseq s' = 0 /\ vt_dels s' = [] /\
+      oveq 0 (vt_root s') (tree_at trees v) /\ good H (vt_root s') /\
+      v2_compute_hash H (vt_root s') = v2_compute_hash H (tree_at trees v).
+  Proof.
+    intros I Hv.
+    destruct (find_previous_some (db_ckpts db) v 1 (hi_sorted _ _ _ _ I) (hi_first _ _ _ _ I ltac:(lia))
+                ltac:(lia)) as (c & Ec & Ic & Lc & Mc).
+    unfold v2_load. rewrite Ec, (hi_roots _ _ _ _ I c Ic).
+    pose proof (hi_range _ _ _ _ I) as Rg. rewrite Forall_forall in Rg. specialize (Rg _ Ic).
+    destruct (c <? v) eqn:C.
+    - apply Z.ltb_lt in C. rewrite (hi_hashes _ _ _ _ I v Hv).
+      destruct (hi_replay _ _ _ _ I c v Ic ltac:(lia) (V2Tree (tree_at trees c) c 0 []))
+        as (s2 & E2 & V2 & G2).
+      { cbn [vt_root]. apply oveq_refl. }
+      { cbn [vt_root]. apply (hi_good _ _ _ _ I). lia. }
+      unfold in_seg in E2. rewrite E2.
+      pose proof (compute_hash_cong H _ _ G2 (hi_good _ _ _ _ I v Hv) V2) as EH.
+      destruct (list_eq_dec N.eq_dec (v2_compute_hash H (tree_at trees v)) (v2_compute_hash H (vt_root s2)))
+        as [_|NE]; [|congruence].
+      eexists. split; [reflexivity|]. unfold v2t_save. cbn [fst vt_root vt_version vt_lseq vt_dels].
+      destruct (good_odeep H _ G2) as [G3 V3]. unfold odeep in G3, V3.
+      split; [lia|]. split; [reflexivity|]. split; [reflexivity|].
+      split; [eapply oveq_trans; [exact V3|exact V2]|]. split; [exact G3|].
+      apply compute_hash_cong; [exact G3|apply (hi_good _ _ _ _ I v Hv)|].
+      eapply oveq_trans; [exact V3|exact V2].
+    - apply Z.ltb_ge in C. assert (c = v) by lia. subst c.
+      eexists. split; [reflexivity|]. cbn [vt_root vt_version vt_lseq vt_dels].
+      repeat split; auto using oveq_refl; apply (hi_good _ _ _ _ I v Hv).
+  Qed.
+End History.
+
+(** [replay_deterministic].  For every history in normal form, every checkpoint interval and
+    every pattern of externally requested checkpoints: the run succeeds, and LoadVersion of
+    ANY version [v] of the resulting database succeeds (sequence checks and root-hash check
+    pass) and returns the tree the uninterrupted run had right after saving [v]: same keys,
+    values, heights, sizes and node versions ([oveq 0]), hence the same root hash. *)
+Theorem replay_deterministic (H : bytes -> bytes) (interval : Z) (hist : list (list logop * bool)) :
+  nf_history [] hist ->
+  exists s db,
+    v2_history H interval (v2t_empty, db_empty) hist = Some (s, db) /\
+    forall v, 1 <= v <= Z.of_nat (length hist) ->
+      exists sv dbv s',
+        v2_history H interval (v2t_empty, db_empty) (firstn (Z.to_nat v) hist) = Some (sv, dbv) /\
+        v2_load H db v = Some s' /\
+        vt_version s' = v /\ vt_version sv = v /\ vt_lseq s' = 0 /\ vt_dels s' = [] /\
+        oveq 0 (vt_root s') (vt_root sv) /\
+        oelems (vt_root s') = oelems (vt_root sv) /\
+        v2_compute_hash H (vt_root s') = v2_compute_hash H (vt_root sv) /\
+        good H (vt_root s').
+Proof.
+  intros NF.
+  destruct (hinv_history H interval hist 0 [] v2t_empty db_empty (hinv_empty H) NF)
+    as (s & db & ts & E & I & _).
+  exists s, db. split; [exact E|]. intros v Hv.
+  set (h1 := firstn (Z.to_nat v) hist). set (h2 := skipn (Z.to_nat v) hist).
+  assert (Eh : hist = h1 ++ h2) by (symmetry; apply firstn_skipn).
+  assert (L1 : Z.of_nat (length h1) = v) by (unfold h1; rewrite firstn_length; lia).
+  rewrite Eh in NF. apply nf_history_app in NF. destruct NF as [NF1 NF2].
+  destruct (hinv_history H interval h1 0 [] v2t_empty db_empty (hinv_empty H) NF1)
+    as (sv & dbv & ts1 & E1 & I1 & C1).
+  cbn [app Z.add] in I1. rewrite L1 in I1.
+  cbn [v2t_empty vt_root oelems] in C1.
+  rewrite <- C1 in NF2.
+  destruct (hinv_history H interval h2 v ts1 sv dbv I1 NF2) as (s2 & db2 & ts2 & E2 & I2 & _).
+  assert (Es : (s2, db2) = (s, db)).
+  { rewrite Eh, v2_history_app, E1, E2 in E. congruence. }
+  injection Es as -> ->.
+  assert (Ln : v + Z.of_nat (length h2) = Z.of_nat (length hist)).
+  { rewrite Eh, app_length, Nat2Z.inj_add. lia. }
+  destruct (hinv_load H _ _ _ _ v I2 ltac:(lia)) as (s' & El & A1 & A2 & A3 & A4 & A5 & A6).
+  assert (TA : tree_at (ts1 ++ ts2) v = vt_root sv).
+  { rewrite (hi_state _ _ _ _ _ I1). cbn [vt_root].
+    replace (v =? 0) with false by (symmetry; apply Z.eqb_neq; lia).
+    unfold tree_at. apply app_nth1. pose proof (hi_len _ _ _ _ _ I1). lia. }
+  rewrite TA in A4, A6.
+  exists sv, dbv, s'. split; [exact E1|]. split; [exact El|].
+  split; [exact A1|]. split; [rewrite (hi_state _ _ _ _ _ I1); reflexivity|].
+  split; [exact A2|]. split; [exact A3|]. split; [exact A4|]. split; [|split; [exact A6|exact A5]].
+  destruct (vt_root s'), (vt_root sv); cbn [oveq oelems] in *; try contradiction; [|reflexivity].
+  apply (veq_elems _ _ _ A4).
+Qed.
+
+(** ** Continuing from a loaded tree gives the same future *)
+Lemma veq0_leaf_vers t1 : forall t2,
+  veq 0 t1 t2 -> map (fun x => ver (snd x)) (leaves t1) = map (fun x => ver (snd x)) (leaves t2).
+Proof.
+  assert (EV : forall m, eff_ver 0 m = ver m).
+  { intros m. unfold eff_ver. destruct (ver m =? 0) eqn:E; [apply Z.eqb_eq in E; auto|auto]. }
+  induction t1 as [k v m|k h s m l IHl r IHr]; intros [k2 v2 m2|k2 h2 s2 m2 l2 r2];
+    cbn [veq]; try tauto.
+  - intros (_ & _ & C). rewrite !EV in C. cbn [leaves map snd]. rewrite C. reflexivity.
+  - intros (_ & _ & _ & _ & E & F). cbn [leaves]. rewrite !map_app, (IHl _ E), (IHr _ F). reflexivity.
+Qed.
+
+Lemma oveq0_below a r1 r2 :
+  oveq 0 r1 r2 -> Forall (fun x => ver (snd x) <= a) (oleaves r2) ->
+  Forall (fun x => ver (snd x) <= a) (oleaves r1).
+Proof.
+  destruct r1 as [t1|], r2 as [t2|]; cbn [oveq oleaves]; try tauto.
+  intros E F. apply veq0_leaf_vers in E.
+  assert (F2 : Forall (fun z => z <= a) (map (fun x => ver (snd x)) (leaves t2)))
+    by (rewrite Forall_map; exact F).
+  rewrite <- E, Forall_map in F2. exact F2.
+Qed.
+
+(** the same version executed on the original tree and on a related (reloaded) tree: same
+    changelog, same root hash, related results *)
+Theorem continue_version (H : bytes -> bytes) (a : Z) (R R' : option node) (ops : list logop) :
+  0 <= a -> good H R -> good H R' -> oveq 0 R' R ->
+  Forall (fun x => ver (snd x) <= a) (oleaves R) -> nf_version (oelems R) ops ->
+  exists sp sp',
+    v2_apply_all (V2Tree R a 0 []) ops = Some sp /\
+    v2_apply_all (V2Tree R' a 0 []) ops = Some sp' /\
+    oveq 0 (vt_root sp') (vt_root sp) /\ good H (vt_root sp) /\ good H (vt_root sp') /\
+    v2_changelog sp' = v2_changelog sp /\
+    v2_compute_hash H (vt_root sp') = v2_compute_hash H (vt_root sp).
+Proof.
+  intros Ha G G' V B NF.
+  assert (Ee : oelems R' = oelems R).
+  { destruct R' as [t'|], R as [t|]; cbn [oveq oelems] in *; try contradiction; [|reflexivity].
+    apply (veq_elems _ _ _ V). }
+  destruct (version_replay H a Ha (oelems R) R ops G eq_refl B NF)
+    as (sp & A1 & A2 & A3 & A4 & A5 & A6 & A7).
+  rewrite <- Ee in NF.
+  destruct (version_replay H a Ha (oelems R') R' ops G' eq_refl (oveq0_below a R' R V B) NF)
+    as (sp' & B1 & B2 & B3 & B4 & B5 & B6 & B7).
+  exists sp, sp'. split; [exact A1|]. split; [exact B1|].
+  destruct (A7 (V2Tree R' a 0 []) V G') as (s1 & E1 & V1 & G1).
+  destruct (B7 (V2Tree R' a 0 []) (oveq_refl 0 R') G') as (s2 & E2 & V2 & G2).
+  rewrite A6 in E1. rewrite B6 in E2. rewrite E1 in E2. injection E2 as <-.
+  assert (VV : oveq 0 (vt_root sp') (vt_root sp))
+    by (eapply oveq_trans; [apply oveq_sym, V2|exact V1]).
+  split; [exact VV|]. split; [exact A3|]. split; [exact B3|].
+  split; [rewrite A6, B6; reflexivity|]. apply compute_hash_cong; assumption.
+Qed.
+
+(** ** Item 5: pruning *)
+Lemma filter_filter_imp {A} (f g : A -> bool) l :
+  (forall x, f x = true -> g x = true) -> filter f (filter g l) = filter f l.
+Proof.
+  intros Imp. induction l as [|x l IH]; [reflexivity|]. cbn [filter].
+  destruct (g x) eqn:G; cbn [filter].
+  - rewrite IH. reflexivity.
+  - destruct (f x) eqn:F; [rewrite (Imp _ F) in G; discriminate|exact IH].
+Qed.
+
+Lemma is_prev_filter vs v c x :
+  zsorted vs -> is_prev vs v x -> c <= x -> is_prev (filter (fun y => c <=? y) vs) v x.
+Proof.
+  intros S (I & L & M) Hc. split; [|split; [exact L|]].
+  - apply filter_In. split; [exact I|]. apply Z.leb_le, Hc.
+  - intros y Iy Ly. apply filter_In in Iy. apply M; tauto.
+Qed.
+
+(** After DeleteVersionsTo(n), with [c] the last checkpoint at or before [n]: every version
+    >= c loads exactly as before (everything below [c] is gone). *)
+Theorem prune_keeps (H : bytes -> bytes) (db : v2db) (n c v : Z) :
+  zsorted (db_ckpts db) ->
+  find_previous (db_ckpts db) n = FPVal c -> c <> -1 -> In c (db_ckpts db) -> c <= v ->
+  v2_load H (v2_prune db n) v = v2_load H db v.
+Proof.
+  intros S Ec Nc Ic Hv. unfold v2_prune. rewrite Ec.
+  replace (c =? -1) with false by (symmetry; apply Z.eqb_neq, Nc).
+  destruct (find_previous_some (db_ckpts db) v c S Ic Hv) as (x & Ex & Px).
+  assert (Hcx : c <= x) by (destruct Px as (_ & _ & M); apply M; [exact Ic|exact Hv]).
+  assert (Px' : is_prev (filter (fun y => c <=? y) (db_ckpts db)) v x)
+    by (apply is_prev_filter; assumption).
+  destruct (find_previous_some (filter (fun y => c <=? y) (db_ckpts db)) v c) as (x' & Ex' & Px'').
+  { apply zsorted_filter, S. }
+  { apply filter_In. split; [exact Ic|apply Z.leb_le; lia]. }
+  { exact Hv. }
+  assert (x' = x) by (eapply is_prev_unique; eassumption). subst x'.
+  unfold v2_load. cbn [db_ckpts db_roots db_hashes db_log]. rewrite Ex, Ex'.
+  rewrite (lookup_filter (fun y => c <=? y) x (db_roots db)).
+  replace (c <=? x) with true by (symmetry; apply Z.leb_le, Hcx).
+  destruct (lookup x (db_roots db)) as [r|]; [|reflexivity].
+  destruct (x <? v) eqn:C; [|reflexivity].
+  rewrite (lookup_filter (fun y => c <=? y) v (db_hashes db)).
+  replace (c <=? v) with true by (symmetry; apply Z.leb_le, Hv).
+  destruct (lookup v (db_hashes db)) as [target|]; [|reflexivity].
+  rewrite filter_filter_imp; [reflexivity|].
+  intros e He. apply andb_prop in He. destruct He as [He _]. apply Z.ltb_lt in He.
+  apply Z.leb_le. lia.
+Qed.
+
+(** what the prune removes *)
+Theorem prune_removes (db : v2db) (n c : Z) :
+  find_previous (db_ckpts db) n = FPVal c -> c <> -1 ->
+  Forall (fun x => c <= x) (db_ckpts (v2_prune db n)) /\
+  Forall (fun p => c <= fst p) (db_roots (v2_prune db n)) /\
+  Forall (fun p => c <= fst p) (db_hashes (v2_prune db n)) /\
+  Forall (fun p => c <= fst p) (db_log (v2_prune db n)).
+Proof.
+  intros Ec Nc. unfold v2_prune. rewrite Ec.
+  replace (c =? -1) with false by (symmetry; apply Z.eqb_neq, Nc).
+  cbn [db_ckpts db_roots db_hashes db_log].
+  repeat split; apply Forall_forall; intros x Hx; apply filter_In in Hx; destruct Hx as [_ Hx];
+    apply Z.leb_le, Hx.
+Qed.
+
+(** ** Item 6: snapshots *)
+
+(** cached heights and sizes consistent enough for the readers: a branch is higher than both
+    children (hence not mistaken for a leaf) and stores the sum of the sizes *)
+Fixpoint hproper (t : node) : Prop :=
+  match t with
+  | Leaf _ _ _ => True
+  | Inner _ h s _ l r =>
+      0 <= height l < h /\ 0 <= height r < h /\ s = size l + size r /\ hproper l /\ hproper r
+  end.
+
+Lemma wf_hproper t : wf t -> hproper t.
+Proof.
+  induction t as [|k h s m l IHl r IHr]; cbn [wf hproper]; [auto|].
+  intros (Wl & Wr & _ & _ & _ & Hh & Hs).
+  pose proof (height_nonneg _ Wl). pose proof (height_nonneg _ Wr).
+  repeat split; auto; lia.
+Qed.
+
+Section Snapshot.
+  Variable H : bytes -> bytes.
+
+  (** every node stores its hash *)
+  Fixpoint v2_full (t : node) : Prop :=
+    hs (nmeta t) = v2_hash H t /\
+    match t with
+    | Leaf _ _ _ => True
+    | Inner _ _ _ _ l r => v2_full l /\ v2_full r
+    end.
+
+  Lemma rehash_full t : v2_full t -> rehash H t = t.
+  Proof.
+    induction t as [k v m|k h s m l IHl r IHr]; cbn [v2_full rehash]; [auto|].
+    intros (E & Fl & Fr). rewrite (IHl Fl), (IHr Fr).
+    assert (hs (nmeta l) = v2_hash H l) by (destruct l; apply Fl).
+    assert (hs (nmeta r) = v2_hash H r) by (destruct r; apply Fr).
+    cbn [nmeta v2_hash] in E. rewrite H0, H1, <- E. destruct m; reflexivity.
+  Qed.
+
+  Lemma import_finish_full t rest : v2_full t -> import_finish H (Some (t, rest)) = Some t.
+  Proof.
+    intros F. unfold import_finish. rewrite (rehash_full t F).
+    destruct (list_eq_dec N.eq_dec (hs (nmeta t)) (hs (nmeta t))); [reflexivity|congruence].
+  Qed.
+
+  Lemma leaf_of_row_of k v m : leaf_of_row (srow_of (Leaf k v m)) = Leaf k v m.
+  Proof. unfold leaf_of_row. cbn. destruct m; reflexivity. Qed.
+  Lemma inner_of_row_of k h s m l r l' r' :
+    inner_of_row (srow_of (Inner k h s m l r)) l' r' = Inner k h s m l' r'.
+  Proof. unfold inner_of_row. cbn. destruct m; reflexivity. Qed.
+
+  Lemma snapshot_pre_length t : length (snapshot_pre t) = v2_nodes t.
+  Proof.
+    induction t as [|k h s m l IHl r IHr]; cbn [snapshot_pre v2_nodes length]; [reflexivity|].
+    rewrite app_length, IHl, IHr. reflexivity.
+  Qed.
+  Lemma snapshot_post_length t : length (snapshot_post t) = v2_nodes t.
+  Proof.
+    induction t as [|k h s m l IHl r IHr]; cbn [snapshot_post v2_nodes length]; [reflexivity|].
+    rewrite !app_length, IHl, IHr. cbn [length]. lia.
+  Qed.
+
+  Lemma import_pre_step_spec t : forall fuel rest,
+    hproper t -> (v2_nodes t <= fuel)%nat ->
+    import_pre_step fuel (snapshot_pre t ++ rest) = Some (t, rest).
+  Proof.
+    induction t as [k v m|k h s m l IHl r IHr]; intros fuel rest P F;
+      (destruct fuel as [|f]; [pose proof (v2_nodes_pos (Leaf [] [] new_meta)); cbn [v2_nodes] in F; lia|]).
+    - cbn [snapshot_pre app import_pre_step srow_of sr_height Z.eqb].
+      change (SRow (ver m) (nonce m) 0 1 k (hs m) v) with (srow_of (Leaf k v m)).
+      rewrite leaf_of_row_of. reflexivity.
+    - cbn [hproper] in P. destruct P as (Hl & Hr & Hs & Pl & Pr).
+      cbn [v2_nodes] in F.
+      cbn [snapshot_pre app import_pre_step]. cbn [srow_of sr_height].
+      replace (h =? 0) with false by (symmetry; apply Z.eqb_neq; lia).
+      rewrite <- app_assoc, (IHl f _ Pl ltac:(lia)), (IHr f _ Pr ltac:(lia)).
+      change (SRow (ver m) (nonce m) h s k (hs m) []) with (srow_of (Inner k h s m l r)).
+      rewrite inner_of_row_of. reflexivity.
+  Qed.
+
+  Lemma import_post_step_spec t : forall fuel rest,
+    hproper t -> (v2_nodes t <= fuel)%nat ->
+    import_post_step fuel (rev (snapshot_post t) ++ rest) = Some (t, rest).
+  Proof.
+    induction t as [k v m|k h s m l IHl r IHr]; intros fuel rest P F;
+      (destruct fuel as [|f]; [pose proof (v2_nodes_pos (Leaf [] [] new_meta)); cbn [v2_nodes] in F; lia|]).
+    - cbn [snapshot_post rev app import_post_step srow_of sr_height Z.eqb].
+      change (SRow (ver m) (nonce m) 0 1 k (hs m) v) with (srow_of (Leaf k v m)).
+      rewrite leaf_of_row_of. reflexivity.
+    - cbn [hproper] in P. destruct P as (Hl & Hr & Hs & Pl & Pr).
+      cbn [v2_nodes] in F.
+      cbn [snapshot_post]. rewrite !rev_app_distr. cbn [rev app].
+      cbn [import_post_step]. cbn [srow_of sr_height].
+      replace (h =? 0) with false by (symmetry; apply Z.eqb_neq; lia).
+      rewrite <- app_assoc, (IHr f _ Pr ltac:(lia)), (IHl f _ Pl ltac:(lia)).
+      change (SRow (ver m) (nonce m) h s k (hs m) []) with (srow_of (Inner k h s m l r)).
+      rewrite inner_of_row_of. reflexivity.
+  Qed.
+
+  (** A snapshot written in pre-order imports to exactly the tree that was written (node
+      keys, heights, sizes, keys, values and hashes), and the root-hash check passes. *)
+  Theorem snapshot_roundtrip_pre t :
+    hproper t -> v2_full t -> import_pre H (snapshot_pre t) = Some t.
+  Proof.
+    intros P F. unfold import_pre.
+    rewrite <- (app_nil_r (snapshot_pre t)) at 2.
+    rewrite import_pre_step_spec; [apply import_finish_full, F|exact P|].
+    rewrite snapshot_pre_length. lia.
+  Qed.
+
+  Theorem snapshot_roundtrip_post t :
+    hproper t -> v2_full t -> import_post H (snapshot_post t) = Some t.
+  Proof.
+    intros P F. unfold import_post.
+    rewrite <- (app_nil_r (rev (snapshot_post t))).
+    rewrite import_post_step_spec; [apply import_finish_full, F|exact P|].
+    rewrite snapshot_post_length. lia.
+  Qed.
+
+  (** WriteSnapshot(PostOrder) from an export stream rebuilds a related, fully hashed tree *)
+  Lemma restore_post_spec t : forall ord stack rest,
+    hproper t ->
+    exists t', restore_post_loop H ord stack (export_post t ++ rest) =
+                 restore_post_loop H (ord + Z.of_nat (v2_nodes t)) (t' :: stack) rest /\
+               veq 0 t' t /\ v2_full t' /\ hproper t'.
+  Proof.
+    induction t as [k v m|k h s m l IHl r IHr]; intros ord stack rest P.
+    - cbn [export_post app restore_post_loop sn_height Z.eqb sn_key sn_val sn_ver v2_nodes].
+      eexists. split; [reflexivity|]. cbn [veq v2_full nmeta hs v2_hash ver hproper].
+      unfold eff_ver. cbn [ver]. repeat split; auto.
+    - cbn [hproper] in P. destruct P as (Hl & Hr & Hs & Pl & Pr).
+      cbn [export_post]. rewrite <- !app_assoc.
+      destruct (IHl ord stack (export_post r ++ [SNode k [] (ver m) h] ++ rest) Pl)
+        as (l' & El & Vl & Fl & Pl').
+      rewrite El.
+      destruct (IHr (ord + Z.of_nat (v2_nodes l)) (l' :: stack) ([SNode k [] (ver m) h] ++ rest) Pr)
+        as (r' & Er & Vr & Fr & Pr').
+      rewrite Er. cbn [app restore_post_loop sn_height sn_key sn_val sn_ver].
+      replace (h =? 0) with false by (symmetry; apply Z.eqb_neq; lia).
+      rewrite (veq_height _ _ _ Vl), (veq_height _ _ _ Vr).
+      replace (height r <? h) with true by (symmetry; apply Z.ltb_lt; lia).
+      replace (height l <? h) with true by (symmetry; apply Z.ltb_lt; lia).
+      cbn [andb]. eexists. split.
+      + f_equal. cbn [v2_nodes]. lia.
+      + assert (hs (nmeta l') = v2_hash H l') by (destruct l'; apply Fl).
+        assert (hs (nmeta r') = v2_hash H r') by (destruct r'; apply Fr).
+        cbn [veq v2_full nmeta hs v2_hash ver hproper]. unfold eff_ver. cbn [ver].
+        rewrite (veq_size _ _ _ Vl), (veq_size _ _ _ Vr), (veq_height _ _ _ Vl), (veq_height _ _ _ Vr).
+        rewrite H0, H1. repeat split; auto; lia.
+  Qed.
+
+  Theorem restore_post_roundtrip t :
+    hproper t ->
+    exists t', restore_post H (export_post t) = Some t' /\
+               veq 0 t' t /\ v2_hash H t' = v2_hash H t /\ v2_full t' /\
+               import_post H (snapshot_post t') = Some t'.
+  Proof.
+    intros P. unfold restore_post.
+    destruct (restore_post_spec t 0 [] [] P) as (t' & E & V & F & P').
+    rewrite app_nil_r in E. rewrite E. cbn [restore_post_loop].
+    exists t'. split; [reflexivity|]. split; [exact V|]. split.
+    - rewrite !v2_hash_pure. apply pure_hash_ext, veq_shape_eq, V.
+    - split; [exact F|]. apply snapshot_roundtrip_post; assumption.
+  Qed.
+
+  (** WriteSnapshot(PreOrder) *)
+  Lemma restore_pre_spec t : forall fuel ord rest,
+    hproper t -> (v2_nodes t <= fuel)%nat ->
+    exists t' ord', restore_pre_step H fuel ord (export_pre t ++ rest) = Some (t', ord', rest) /\
+                    veq 0 t' t /\ v2_full t' /\ hproper t'.
+  Proof.
+    induction t as [k v m|k h s m l IHl r IHr]; intros fuel ord rest P F;
+      (destruct fuel as [|f]; [pose proof (v2_nodes_pos (Leaf [] [] new_meta)); cbn [v2_nodes] in F; lia|]).
+    - cbn [export_pre app restore_pre_step sn_height Z.eqb sn_key sn_val sn_ver].
+      eexists _, _. split; [reflexivity|]. cbn [veq v2_full nmeta hs v2_hash ver hproper].
+      unfold eff_ver. cbn [ver]. repeat split; auto.
+    - cbn [hproper] in P. destruct P as (Hl & Hr & Hs & Pl & Pr). cbn [v2_nodes] in F.
+      cbn [export_pre app restore_pre_step sn_height sn_key sn_val sn_ver].
+      replace (h =? 0) with false by (symmetry; apply Z.eqb_neq; lia).
+      rewrite <- app_assoc.
+      destruct (IHl f (ord + 1) (export_pre r ++ rest) Pl ltac:(lia)) as (l' & o1 & El & Vl & Fl & Pl').
+      rewrite El.
+      destruct (IHr f o1 rest Pr ltac:(lia)) as (r' & o2 & Er & Vr & Fr & Pr').
+      rewrite Er. eexists _, _. split; [reflexivity|].
+      assert (hs (nmeta l') = v2_hash H l') by (destruct l'; apply Fl).
+      assert (hs (nmeta r') = v2_hash H r') by (destruct r'; apply Fr).
+      cbn [veq v2_full nmeta hs v2_hash ver hproper]. unfold eff_ver. cbn [ver].
+      rewrite (veq_size _ _ _ Vl), (veq_size _ _ _ Vr), (veq_height _ _ _ Vl), (veq_height _ _ _ Vr).
+      rewrite H0, H1. repeat split; auto; lia.
+  Qed.
+
+  Lemma export_pre_length t : length (export_pre t) = v2_nodes t.
+  Proof.
+    induction t as [|k h s m l IHl r IHr]; cbn [export_pre v2_nodes length]; [reflexivity|].
+    rewrite app_length, IHl, IHr. reflexivity.
+  Qed.
+
+  Theorem restore_pre_roundtrip t :
+    hproper t ->
+    exists t', restore_pre H (export_pre t) = Some t' /\
+               veq 0 t' t /\ v2_hash H t' = v2_hash H t /\ v2_full t' /\
+               import_pre H (snapshot_pre t') = Some t'.
+  Proof.
+    intros P. unfold restore_pre.
+    destruct (restore_pre_spec t (S (length (export_pre t))) 0 [] P) as (t' & o & E & V & F & P').
+    { rewrite export_pre_length. lia. }
+    rewrite app_nil_r in E. rewrite E.
+    exists t'. split; [reflexivity|]. split; [exact V|]. split.
+    - rewrite !v2_hash_pure. apply pure_hash_ext, veq_shape_eq, V.
+    - split; [exact F|]. apply snapshot_roundtrip_pre; assumption.
+  Qed.
+
+  (** a tree all of whose hashes were cleared or are right becomes fully hashed by
+      computeHash when nothing is stale, e.g. after SaveVersion of a tree built from scratch;
+      in general: *)
+  Lemma v2_full_hok t : v2_full t -> v2_hok H t.
+  Proof.
+    induction t as [k v m|k h s m l IHl r IHr]; cbn [v2_full v2_hok]; [tauto|].
+    intros (E & Fl & Fr). auto.
+  Qed.
+End Snapshot.
+
+(** ** Outside the normal form LoadVersion can fail (findings) *)
+
+(** the hash function is irrelevant for these two witnesses *)
+Definition idh : bytes -> bytes := fun b => b.
+
+(** A key written twice in one version: the leaf row carries the sequence of the SECOND write
+    (mutateNode draws a new leaf sequence), the replay writes it once and stops with
+    "sequence mismatch". *)
+Theorem load_double_write_refuted :
+  exists hist s db,
+    ~ nf_history [] hist /\
+    v2_history idh 0 (v2t_empty, db_empty) hist = Some (s, db) /\
+    vt_version s = 2 /\ v2_load idh db 1 <> None /\ v2_load idh db 2 = None.
+Proof.
+  exists [([LSet [1%N] [10%N]], false); ([LSet [2%N] [20%N]; LSet [2%N] [21%N]], false)].
+  eexists _, _. split.
+  - intros (_ & (ND & _) & _). cbn in ND. inversion ND as [|? ? NI _]. apply NI. left. reflexivity.
+  - split; [vm_compute; reflexivity|]. split; [reflexivity|]. split; vm_compute; congruence.
+Qed.
+
+(** A key that exists, is updated and then removed in the same version: addDelete skips the
+    delete row because the leaf already carries the working version, the updated leaf is not
+    in the final tree, so the changelog of the version is EMPTY; the replay keeps the key and
+    stops with "root hash mismatch". *)
+Theorem load_update_then_remove_refuted :
+  exists hist s db,
+    ~ nf_history [] hist /\
+    v2_history idh 0 (v2t_empty, db_empty) hist = Some (s, db) /\
+    lookup 2 (db_log db) = Some [] /\
+    oelems (vt_root s) = [([2%N], [20%N])] /\
+    v2_load idh db 2 = None.
+Proof.
+  exists [([LSet [1%N] [10%N]; LSet [2%N] [20%N]], false); ([LSet [1%N] [11%N]; LDel [1%N]], false)].
+  eexists _, _. split.
+  - intros (_ & (ND & _) & _). cbn in ND. inversion ND as [|? ? NI _]. apply NI. left. reflexivity.
+  - split; [vm_compute; reflexivity|]. repeat split; vm_compute; reflexivity.
+Qed.
+
+(** ** Pruning after a history *)
+Lemma find_previous_In vs v c :
+  zsorted vs -> find_previous vs v = FPVal c -> c <> -1 -> is_prev vs v c.
+Proof.
+  intros S E N. pose proof (find_previous_spec vs v S) as P.
+  destruct vs as [|v0 vs']; [rewrite P in E; injection E as <-; contradiction N; reflexivity|].
+  destruct (v <? v0); [rewrite P in E; injection E as <-; contradiction N; reflexivity|].
+  destruct P as (c' & E' & P). rewrite E' in E. injection E as <-. exact P.
+Qed.
+
+Theorem history_checkpoints (H : bytes -> bytes) (interval : Z) (hist : list (list logop * bool)) s db :
+  nf_history [] hist ->
+  v2_history H interval (v2t_empty, db_empty) hist = Some (s, db) ->
+  zsorted (db_ckpts db) /\
+  Forall (fun c => 1 <= c <= Z.of_nat (length hist)) (db_ckpts db) /\
+  (hist <> [] -> In 1 (db_ckpts db)) /\
+  vt_version s = Z.of_nat (length hist).
+Proof.
+  intros NF E.
+  destruct (hinv_history H interval hist 0 [] v2t_empty db_empty (hinv_empty H) NF)
+    as (s1 & db1 & ts & E1 & I & _).
+  rewrite E in E1. injection E1 as <- <-. cbn [Z.add] in I.
+  split; [apply (hi_sorted _ _ _ _ _ I)|]. split; [apply (hi_range _ _ _ _ _ I)|]. split.
+  - intros NE. apply (hi_first _ _ _ _ _ I). destruct hist; [contradiction NE; reflexivity|].
+    cbn [length]. lia.
+  - rewrite (hi_state _ _ _ _ _ I). reflexivity.
+Qed.
+
+(** After DeleteVersionsTo(n) on the database of a normal-form history: with [c] the last
+    checkpoint <= n, every version from [c] on still loads, to the same tree as before. *)
+Theorem prune_then_load (H : bytes -> bytes) (interval : Z) (hist : list (list logop * bool)) s db n c v :
+  nf_history [] hist ->
+  v2_history H interval (v2t_empty, db_empty) hist = Some (s, db) ->
+  find_previous (db_ckpts db) n = FPVal c -> c <> -1 -> c <= v ->
+  v2_load H (v2_prune db n) v = v2_load H db v.
+Proof.
+  intros NF E Ec Nc Hv.
+  destruct (history_checkpoints H interval hist s db NF E) as (S & _).
+  apply (prune_keeps H db n c v S Ec Nc); [|exact Hv].
+  apply (find_previous_In _ _ _ S Ec Nc).
+Qed.
